@@ -6,11 +6,11 @@
       raw text, {print e} with directives (|d₁:a₁,…|d₂ …, arguments in the expression fragment), {css},
       {debugger}, {log}, {if}/{elseif}/{else},
       {switch}/{case}/{default} (the matching case wherever it stands, else the first {default}),
-      {foreach $x in L}…{ifempty}… / {for $i in L} with L a list literal [e₁, …], range(a[, b[, s]]) or a
-        variable $l,
+      {foreach $x in L}…{ifempty}… / {for $i in L} with L any expression of the fragment (a list literal, a
+        range, a variable, an access chain `$x.items`, …),
       {let $x: e /}, {let $x}…{/let},
-      {call} without a data attribute, with data="all", with data="$m" (a variable) or data="[k₁: e₁, …]" (a
-        map literal), with value params and content params ({param k}…{/param}),
+      {call} without a data attribute, with data="all", with data="e" for any expression of the fragment (a
+        variable, an access chain, a map literal, …), with value params and content params ({param k}…{/param}),
       {msg} (text, placeholders — commands of the fragment or HTML tags —, {plural}), without a message bundle
         and THROUGH one (a message without a translation: its source; a translation: raw text, placeholder
         parts = the source placeholder of that name, plural parts = the form the bundle's plural function
@@ -18,14 +18,15 @@
         interpreter's — `modelMsgSem`),
       header params
       — nested arbitrarily, templates calling templates to any depth (`render_refines_lexical_partial`),
-      with expressions of the scalar operator fragment of Props/C01.lean,
+      with expressions of the fragment of Props/C01.lean,
 
-  over data whose values are scalars or — under the names `coll`, which the scalar expressions do not
-  read — lists of scalars and maps of scalars: whenever the lexical specification yields text, the model's
+  over ANY data (scalars, lists, maps, nested): whenever the lexical specification yields text, the model's
   walk (dynamic scope stack over a heap of frames, Model/Eval.lean) ends ok having written exactly that
   text, and the bindings visible afterwards are exactly those of the specification's environment — in
   particular a `let` is visible to the end of its block and not after it, and shadows an outer name only
-  there; whenever the specification yields an error the model yields an error.
+  there; whenever the specification yields an error the model yields an error.  Expressions are those of
+  Props/C01's fragment: access chains, list / map literals, the builtins isNonnull / length / strContains /
+  hasData / range / min / max, all operators.
 
   data="all": `Rel` carries, next to the bindings, `EntRel`: the frames `alldata` passes from the running
   scope bind exactly the specification's `entry` bindings, and the top (let) frame is not among them — so
@@ -44,9 +45,11 @@
   `foreach_over_value_refines` / `list_variable_agrees` are the {foreach}-over-a-value statements of the
   earlier rounds (now instances of the fragment: `forc_core` with `ValSim.of_var`).
 
-  Still outside (exactly): expressions beyond Props/C01's scalar operator fragment (accesses, collection
-  literals other than a loop's list literal and a call's map literal, functions other than a loop's range —
-  hence also `index` / `isFirst` / `isLast`), collections nested in collections.  Those are covered by the
+  Still outside (exactly): what is outside Props/C01's expression fragment — `$ij`, index / isFirst / isLast,
+  round / floor / ceiling, randomInt, a map literal repeating a key (except as {call} data).
+
+  `loop_hides_only_its_variable`: a loop over `$x` changes the lookup of no variable name other than `x` (the
+  bookkeeping names `x.index` / `x.lastIndex` contain a '.').  Those are covered by the
   scoping theorems of Props/C02.lean and by the Spec.render oracle of the C02exec correspondence.
 -/
 import SoyVerif.Lemmas.ExecRefine
@@ -58,117 +61,99 @@ open SoyVerif.Spec.Eval (Val Out)
 open SoyVerif.Props.C01 (frag EnvRel)
 open SoyVerif.Props.C02 (ScopeOk)
 
-def optFrag (coll : Bytes → Bool) : Option Expr → Bool
+def optFrag : Option Expr → Bool
   | none => true
-  | some e => frag coll e
+  | some e => frag e
 
 /-- the items of a list literal -/
-def fragList (coll : Bytes → Bool) : ExprList → Bool
+def fragList : ExprList → Bool
   | .nil => true
-  | .cons e r => frag coll e && fragList coll r
+  | .cons e r => frag e && fragList r
 
 /-- the directives of a print: their arguments in the expression fragment -/
-def dirsFrag (coll : Bytes → Bool) (ds : List Directive) : Bool := ds.all fun d => d.args.all (frag coll)
+def dirsFrag (ds : List Directive) : Bool := ds.all fun d => d.args.all (frag)
 
 /-- the items of a map literal -/
-def mapFrag (coll : Bytes → Bool) : MapItems → Bool
+def mapFrag : MapItems → Bool
   | .nil => true
-  | .cons _ e r => frag coll e && mapFrag coll r
+  | .cons _ e r => frag e && mapFrag r
 
-/-- what a {call} passes as data="…": a map literal of scalars, a variable -/
-def dataFrag (coll : Bytes → Bool) : Expr → Bool
-  | .map _ items => mapFrag coll items
-  | .dataRef _ key .nil => key != sIj && !C01.isHelper key
-  | _ => false
+/-- what a {call} passes as data="…": any expression of the fragment (a variable, an access chain, a map
+    literal, …); a map literal may also repeat a key (the first item wins on both sides) -/
+def dataFrag (d : Expr) : Bool :=
+  frag d || (match d with
+    | .map _ items => mapFrag items
+    | _ => false)
 
-/-- what a {foreach} / {for} ranges over: a list literal, a range, a variable -/
-def listFrag (coll : Bytes → Bool) : Expr → Bool
-  | .list _ items => fragList coll items
-  | .func _ name args => name == fRange && fragList coll args
-  | .dataRef _ key .nil => key != sIj && !C01.isHelper key
-  | _ => false
+/-- what a {foreach} / {for} ranges over: any expression of the fragment (a list literal, a range, a
+    variable, an access chain, …) -/
+def listFrag (e : Expr) : Bool := frag e
 
 mutual
-def cfrag (coll : Bytes → Bool) : Cmd → Bool
+def cfrag : Cmd → Bool
   | .rawText _ _ => true
-  | .print _ a dirs => frag coll a && dirsFrag coll dirs
-  | .css _ e _ => optFrag coll e
+  | .print _ a dirs => frag a && dirsFrag dirs
+  | .css _ e _ => optFrag e
   | .debugger _ => true
-  | .log _ b => bfrag coll b
-  | .ifc _ conds => condsFrag coll conds
-  | .switch _ v cases => frag coll v && casesFrag coll cases
-  | .forc _ _ e body none => listFrag coll e && bfrag coll body
-  | .forc _ _ e body (some b) => listFrag coll e && bfrag coll body && bfrag coll b
-  | .msg _ _ _ _ _ body => partsFrag coll body
-  | .call _ _ false none ps => paramsFrag coll ps
-  | .call _ _ true none ps => paramsFrag coll ps
-  | .call _ _ false (some d) ps => dataFrag coll d && paramsFrag coll ps
-  | .letValue _ _ e => frag coll e
-  | .letContent _ _ b => bfrag coll b
+  | .log _ b => bfrag b
+  | .ifc _ conds => condsFrag conds
+  | .switch _ v cases => frag v && casesFrag cases
+  | .forc _ _ e body none => listFrag e && bfrag body
+  | .forc _ _ e body (some b) => listFrag e && bfrag body && bfrag b
+  | .msg _ _ _ _ _ body => partsFrag body
+  | .call _ _ false none ps => paramsFrag ps
+  | .call _ _ true none ps => paramsFrag ps
+  | .call _ _ false (some d) ps => dataFrag d && paramsFrag ps
+  | .letValue _ _ e => frag e
+  | .letContent _ _ b => bfrag b
   | .headerParam _ _ _ _ _ _ => true
   | _ => false
-def bfrag (coll : Bytes → Bool) : Block → Bool
-  | .mk _ cs => csFrag coll cs
-def csFrag (coll : Bytes → Bool) : CmdList → Bool
+def bfrag : Block → Bool
+  | .mk _ cs => csFrag cs
+def csFrag : CmdList → Bool
   | .nil => true
-  | .cons c r => cfrag coll c && csFrag coll r
-def condsFrag (coll : Bytes → Bool) : CondList → Bool
+  | .cons c r => cfrag c && csFrag r
+def condsFrag : CondList → Bool
   | .nil => true
-  | .cons _ c b r => optFrag coll c && bfrag coll b && condsFrag coll r
-def casesFrag (coll : Bytes → Bool) : CaseList → Bool
+  | .cons _ c b r => optFrag c && bfrag b && condsFrag r
+def casesFrag : CaseList → Bool
   | .nil => true
-  | .cons _ vs b r => vs.all (frag coll) && bfrag coll b && casesFrag coll r
+  | .cons _ vs b r => vs.all (frag) && bfrag b && casesFrag r
 /-- the parts of a {msg}: text, placeholders (commands of the fragment, HTML tags), plurals -/
-def partsFrag (coll : Bytes → Bool) : MsgParts → Bool
+def partsFrag : MsgParts → Bool
   | .nil => true
-  | .text _ _ r => partsFrag coll r
-  | .ph _ _ b r => phFrag coll b && partsFrag coll r
-  | .plural _ _ v cases _ d r => frag coll v && plFrag coll cases && partsFrag coll d && partsFrag coll r
-def phFrag (coll : Bytes → Bool) : MsgPhBody → Bool
+  | .text _ _ r => partsFrag r
+  | .ph _ _ b r => phFrag b && partsFrag r
+  | .plural _ _ v cases _ d r => frag v && plFrag cases && partsFrag d && partsFrag r
+def phFrag : MsgPhBody → Bool
   | .htmlTag _ _ => true
-  | .cmd c => cfrag coll c
-def plFrag (coll : Bytes → Bool) : PluralCases → Bool
+  | .cmd c => cfrag c
+def plFrag : PluralCases → Bool
   | .nil => true
-  | .cons _ _ _ b r => partsFrag coll b && plFrag coll r
+  | .cons _ _ _ b r => partsFrag b && plFrag r
 /-- the params of a call: values of the expression fragment, content blocks of the command fragment -/
-def paramsFrag (coll : Bytes → Bool) : ParamList → Bool
+def paramsFrag : ParamList → Bool
   | .nil => true
-  | .value _ _ e r => frag coll e && paramsFrag coll r
-  | .content _ _ b r => bfrag coll b && paramsFrag coll r
+  | .value _ _ e r => frag e && paramsFrag r
+  | .content _ _ b r => bfrag b && paramsFrag r
 end
 
-/-- a scalar, a list of scalars or a map of scalars -/
-def Shallow : Value → Bool
-  | .list _ xs => xs.all Scalar
-  | .map _ kvs => kvs.all fun kv => Scalar kv.2
-  | _ => true
-
-theorem Shallow.of_scalar {v : Value} (h : Scalar v = true) : Shallow v = true := by
-  cases v <;> simp_all [Scalar, Shallow]
-
-/-- what the name `k` may hold: a scalar, or — under the names `coll` — a list or a map of scalars -/
-def OkAt (coll : Bytes → Bool) (k : Bytes) (v : Value) : Prop := (coll k = false → Scalar v = true) ∧ Shallow v = true
-
-theorem OkAt.of_scalar {coll : Bytes → Bool} {k : Bytes} {v : Value} (h : Scalar v = true) : OkAt coll k v :=
-  ⟨fun _ => h, Shallow.of_scalar h⟩
-
 /-- the frames of `cd` bind exactly `B` -/
-def FrameRel (coll : Bytes → Bool) (heap : List Cell) (cd : Scope) (B : Spec.Eval.Binds) : Prop :=
-  ∀ k, absV (lookup heap cd k) = (Spec.Eval.find B k).getD .undefined ∧ OkAt coll k (lookup heap cd k)
+def FrameRel (heap : List Cell) (cd : Scope) (B : Spec.Eval.Binds) : Prop :=
+  ∀ k, absV (lookup heap cd k) = (Spec.Eval.find B k).getD .undefined
 
 /-- the running template's ENTRY data — what a data="all" call passes — against the specification's `entry`
     bindings: the scope is an unmarked top frame above frames whose `alldata` part binds exactly `entry`,
     and the top frame is not one of the passed frames (so a {let} cannot change what is passed) -/
-def EntRel (coll : Bytes → Bool) (entry : Spec.Eval.Binds) (ctx : Scope) (st : St) : Prop :=
+def EntRel (entry : Spec.Eval.Binds) (ctx : Scope) (st : St) : Prop :=
   ∃ f r sc, ctx = f :: r ∧ f.entered = false ∧ alldata r = some sc ∧ (∀ x ∈ sc, x.ref ≠ f.ref) ∧
-    (∀ x ∈ sc, x.ref < st.heap.length) ∧ FrameRel coll st.heap sc entry
+    (∀ x ∈ sc, x.ref < st.heap.length) ∧ FrameRel st.heap sc entry
 
 /-- the model's scope (through the heap) and the lexical environment bind the same scalars, and the frames
     a data="all" call would pass bind the template's entry data -/
-structure Rel (coll : Bytes → Bool) (g : GEnv) (entry : Spec.Eval.Binds) (ctx : Scope) (st : St) (env : Spec.Eval.Env) : Prop where
-  base : EnvRel coll (eenv g ctx st) env
-  shallow : ∀ k, Shallow (lookup st.heap ctx k) = true
-  ent : EntRel coll entry ctx st
+structure Rel (g : GEnv) (entry : Spec.Eval.Binds) (ctx : Scope) (st : St) (env : Spec.Eval.Env) : Prop where
+  base : EnvRel (eenv g ctx st) env
+  ent : EntRel entry ctx st
 
 theorem alldata_sub : ∀ (r sc : Scope), alldata r = some sc → ∀ x ∈ sc, x ∈ r := by
   intro r sc h x hx
@@ -182,55 +167,46 @@ theorem Ext.append (st : St) (cells : List Cell) : Ext (fun _ => False) st { st 
     have hi : i < st.heap.length := (List.getElem?_eq_some_iff.mp hc).1
     simp [List.getElem?_append_left hi, hc], rfl, fun _ => rfl⟩, rfl⟩
 
-theorem FrameRel.of_lookup {coll : Bytes → Bool} {heap heap' : List Cell} {cd : Scope} {B : Spec.Eval.Binds} (h : FrameRel coll heap cd B)
-    (hl : ∀ k, lookup heap' cd k = lookup heap cd k) : FrameRel coll heap' cd B :=
+theorem FrameRel.of_lookup {heap heap' : List Cell} {cd : Scope} {B : Spec.Eval.Binds} (h : FrameRel heap cd B)
+    (hl : ∀ k, lookup heap' cd k = lookup heap cd k) : FrameRel heap' cd B :=
   fun k => by rw [hl k]; exact h k
 
 /-- a state change that leaves the frames of the scope — other than writable ones it does not contain —
     alone keeps the relation -/
-theorem Rel.of_ext {coll : Bytes → Bool} {g : GEnv} {entry : Spec.Eval.Binds} {ctx : Scope} {st st' : St} {env : Spec.Eval.Env} {W : Nat → Prop}
-    (h : Rel coll g entry ctx st env) (e : Ext W st st') (hok : ScopeOk ctx st) (hW : ∀ f ∈ ctx, ¬ W f.ref) :
-    Rel coll g entry ctx st' env := by
+theorem Rel.of_ext {g : GEnv} {entry : Spec.Eval.Binds} {ctx : Scope} {st st' : St} {env : Spec.Eval.Env} {W : Nat → Prop}
+    (h : Rel g entry ctx st env) (e : Ext W st st') (hok : ScopeOk ctx st) (hW : ∀ f ∈ ctx, ¬ W f.ref) :
+    Rel g entry ctx st' env := by
   have hl := lookup_ext_W e ctx hok hW
-  refine ⟨⟨fun k hk => ?_, fun k hc => ?_, h.base.globals⟩, fun k => ?_, ?_⟩
+  refine ⟨⟨fun k hk => ?_, h.base.globals⟩, ?_⟩
   · show absV (lookup st'.heap ctx k) = _
     rw [hl k]; exact h.base.vars k hk
-  · show Scalar (lookup st'.heap ctx k) = true
-    rw [hl k]; exact h.base.scalar k hc
-  · rw [hl k]; exact h.shallow k
   · obtain ⟨f, r, sc, hc, hf, ha, hne, hlt, hfr⟩ := h.ent
     refine ⟨f, r, sc, hc, hf, ha, hne, fun x hx => Nat.lt_of_lt_of_le (hlt x hx) e.len, ?_⟩
     have hsub : ∀ x ∈ sc, x ∈ ctx := fun x hx => by rw [hc]; exact List.mem_cons_of_mem _ (alldata_sub r sc ha x hx)
     exact hfr.of_lookup (lookup_ext_W e sc (fun x hx => hlt x hx) (fun x hx => hW x (hsub x hx)))
 
-theorem Rel.of_heap {coll : Bytes → Bool} {g : GEnv} {entry : Spec.Eval.Binds} {ctx : Scope} {st st' : St} {env : Spec.Eval.Env}
-    (h : Rel coll g entry ctx st env) (hh : st'.heap = st.heap) : Rel coll g entry ctx st' env := by
-  refine ⟨⟨fun k hk => ?_, fun k hc => ?_, h.base.globals⟩, fun k => ?_, ?_⟩
+theorem Rel.of_heap {g : GEnv} {entry : Spec.Eval.Binds} {ctx : Scope} {st st' : St} {env : Spec.Eval.Env}
+    (h : Rel g entry ctx st env) (hh : st'.heap = st.heap) : Rel g entry ctx st' env := by
+  refine ⟨⟨fun k hk => ?_, h.base.globals⟩, ?_⟩
   · show absV (lookup st'.heap ctx k) = _
     rw [hh]; exact h.base.vars k hk
-  · show Scalar (lookup st'.heap ctx k) = true
-    rw [hh]; exact h.base.scalar k hc
-  · rw [hh]; exact h.shallow k
   · obtain ⟨f, r, sc, hc, hf, ha, hne, hlt, hfr⟩ := h.ent
     exact ⟨f, r, sc, hc, hf, ha, hne, by rw [hh]; exact hlt, by rw [hh]; exact hfr⟩
 
 /-- writes to the top frame do not reach the entry data -/
-theorem EntRel.of_ext_top {coll : Bytes → Bool} {entry : Spec.Eval.Binds} {ctx : Scope} {st st' : St} (h : EntRel coll entry ctx st)
-    (e : Ext (fun i => i = top ctx) st st') : EntRel coll entry ctx st' := by
+theorem EntRel.of_ext_top {entry : Spec.Eval.Binds} {ctx : Scope} {st st' : St} (h : EntRel entry ctx st)
+    (e : Ext (fun i => i = top ctx) st st') : EntRel entry ctx st' := by
   obtain ⟨f, r, sc, hc, hf, ha, hne, hlt, hfr⟩ := h
   refine ⟨f, r, sc, hc, hf, ha, hne, fun x hx => Nat.lt_of_lt_of_le (hlt x hx) e.len, ?_⟩
   exact hfr.of_lookup (lookup_ext_W e sc (fun x hx => hlt x hx) (fun x hx hw => hne x hx (by rw [hc] at hw; exact hw)))
 
 /-- a pushed (unmarked, empty) frame: same bindings, same entry data -/
-theorem Rel.pushed {coll : Bytes → Bool} {g : GEnv} {entry : Spec.Eval.Binds} {ctx : Scope} {st : St} {env : Spec.Eval.Env}
-    (h : Rel coll g entry ctx st env) (hok : ScopeOk ctx st) : Rel coll g entry (push ctx st).1 (push ctx st).2 env := by
+theorem Rel.pushed {g : GEnv} {entry : Spec.Eval.Binds} {ctx : Scope} {st : St} {env : Spec.Eval.Env}
+    (h : Rel g entry ctx st env) (hok : ScopeOk ctx st) : Rel g entry (push ctx st).1 (push ctx st).2 env := by
   obtain ⟨hctx1, _, hext1, _⟩ := push_spec ctx st
-  refine ⟨⟨fun k hk => ?_, fun k hc => ?_, h.base.globals⟩, fun k => ?_, ?_⟩
+  refine ⟨⟨fun k hk => ?_, h.base.globals⟩, ?_⟩
   · show absV (lookup (push ctx st).2.heap (push ctx st).1 k) = _
     rw [lookup_push ctx st hok k]; exact h.base.vars k hk
-  · show Scalar (lookup (push ctx st).2.heap (push ctx st).1 k) = true
-    rw [lookup_push ctx st hok k]; exact h.base.scalar k hc
-  · rw [lookup_push ctx st hok k]; exact h.shallow k
   · obtain ⟨f, r, sc, hc, hf, ha, hne, hlt, hfr⟩ := h.ent
     refine ⟨⟨st.heap.length, false⟩, ctx, sc, hctx1, rfl, by rw [hc, alldata, hf]; simpa using ha, ?_, ?_, ?_⟩
     · intro x hx e; have := hlt x hx; simp at e; omega
@@ -238,27 +214,27 @@ theorem Rel.pushed {coll : Bytes → Bool} {g : GEnv} {entry : Spec.Eval.Binds} 
     · exact hfr.of_lookup (lookup_ext_W (hext1 (fun _ => False)) sc (fun x hx => hlt x hx) (fun _ _ h => h))
 
 /-- what the model did agrees with what the specification says for a command -/
-def Agree (coll : Bytes → Bool) (g : GEnv) (entry : Spec.Eval.Binds) (ctx : Scope) (st : St) (r : R) : Spec.Eval.ROut → Prop
-  | .val (out, env') => r.cls = .ok ∧ bufBytes r.st.out = bufBytes st.out ++ out ∧ Rel coll g entry ctx r.st env'
+def Agree (g : GEnv) (entry : Spec.Eval.Binds) (ctx : Scope) (st : St) (r : R) : Spec.Eval.ROut → Prop
+  | .val (out, env') => r.cls = .ok ∧ bufBytes r.st.out = bufBytes st.out ++ out ∧ Rel g entry ctx r.st env'
   | .error => r.cls = .err
   | .unspec => True
 
 /-- … and for a block (the environment afterwards is the one before) -/
-def AgreeB (coll : Bytes → Bool) (g : GEnv) (entry : Spec.Eval.Binds) (ctx : Scope) (st : St) (env : Spec.Eval.Env) (r : R) : Out Bytes → Prop
-  | .val out => r.cls = .ok ∧ bufBytes r.st.out = bufBytes st.out ++ out ∧ Rel coll g entry ctx r.st env
+def AgreeB (g : GEnv) (entry : Spec.Eval.Binds) (ctx : Scope) (st : St) (env : Spec.Eval.Env) (r : R) : Out Bytes → Prop
+  | .val out => r.cls = .ok ∧ bufBytes r.st.out = bufBytes st.out ++ out ∧ Rel g entry ctx r.st env
   | .error => r.cls = .err
   | .unspec => True
 
 /-- the specification's agreement does not look at `s.node` -/
-theorem Agree.of_atNode {coll : Bytes → Bool} {g : GEnv} {ctx : Scope} {st : St} {p : Nat} {r : R} {o : Spec.Eval.ROut}
-    (h : Agree coll g entry ctx (atNode st p) r o) : Agree coll g entry ctx st r o := by
+theorem Agree.of_atNode {g : GEnv} {ctx : Scope} {st : St} {p : Nat} {r : R} {o : Spec.Eval.ROut}
+    (h : Agree g entry ctx (atNode st p) r o) : Agree g entry ctx st r o := by
   cases o with
   | unspec => trivial
   | error => exact h
   | val q => exact h
 
-theorem AgreeB.of_atNode {coll : Bytes → Bool} {g : GEnv} {ctx : Scope} {st : St} {env : Spec.Eval.Env} {p : Nat} {r : R} {o : Out Bytes}
-    (h : AgreeB coll g entry ctx (atNode st p) env r o) : AgreeB coll g entry ctx st env r o := by
+theorem AgreeB.of_atNode {g : GEnv} {ctx : Scope} {st : St} {env : Spec.Eval.Env} {p : Nat} {r : R} {o : Out Bytes}
+    (h : AgreeB g entry ctx (atNode st p) env r o) : AgreeB g entry ctx st env r o := by
   cases o with
   | unspec => trivial
   | error => exact h
@@ -279,24 +255,23 @@ def specRest (sd : Option (Spec.Eval.Env → Out Bytes)) (tail : Out Bytes) (env
     | none => tail
 
 /-- the {default} the interpreter remembered against the one the specification will fall back to -/
-def DfltRel (coll : Bytes → Bool) (g : GEnv) (entry : Spec.Eval.Binds) (dflt : Option Run) (sd : Option (Spec.Eval.Env → Out Bytes)) : Prop :=
+def DfltRel (g : GEnv) (entry : Spec.Eval.Binds) (dflt : Option Run) (sd : Option (Spec.Eval.Env → Out Bytes)) : Prop :=
   (dflt = none ∧ sd = none) ∨
-  ∃ d s, dflt = some d ∧ sd = some s ∧ ∀ ctx st env, Rel coll g entry ctx st env → Own ctx st → ScopeOk ctx st →
-    AgreeB coll g entry ctx st env (d ctx st) (s env)
+  ∃ d s, dflt = some d ∧ sd = some s ∧ ∀ ctx st env, Rel g entry ctx st env → Own ctx st → ScopeOk ctx st →
+    AgreeB g entry ctx st env (d ctx st) (s env)
 
 theorem absV_undefined (mv : Value) (h : absV mv = .undefined) : mv = .undefined := by
   cases mv <;> simp [absV] at h ⊢
 
 /-- expressions in a context: eval_refines_spec_partial through `evalIn` -/
-theorem evalIn_sim {g : GEnv} {ctx : Scope} {st : St} {env : Spec.Eval.Env} (hr : Rel coll g entry ctx st env) (e : Expr)
-    (hf : frag coll e = true) :
-    (∀ v, Spec.Eval.eval env e = .val v → ∃ mv st1, evalIn g e ctx st = some (mv, st1) ∧ absV mv = v ∧
-        Scalar mv = true ∧ st1.heap = st.heap ∧ st1.out = st.out) ∧
+theorem evalIn_sim {g : GEnv} {ctx : Scope} {st : St} {env : Spec.Eval.Env} (hr : Rel g entry ctx st env) (e : Expr)
+    (hf : frag e = true) :
+    (∀ v, Spec.Eval.eval env e = .val v → ∃ mv st1, evalIn g e ctx st = some (mv, st1) ∧ absV mv = v ∧ st1.heap = st.heap ∧ st1.out = st.out) ∧
     (Spec.Eval.eval env e = .error → evalIn g e ctx st = none) := by
   have h := C01.eval_refines_spec_partial hr.base e hf st.next
   refine ⟨fun v hv => ?_, fun herr => ?_⟩
-  · obtain ⟨mv, n', h1, h2, h3⟩ := h.1 v hv
-    exact ⟨mv, { st with next := n' }, by simp [evalIn, h1], h2, h3, rfl, rfl⟩
+  · obtain ⟨mv, n', h1, h2⟩ := h.1 v hv
+    exact ⟨mv, { st with next := n' }, by simp [evalIn, h1], h2, rfl, rfl⟩
   · simp [evalIn, h.2 herr]
 
 theorem helper_index (v : Bytes) : C01.isHelper (v ++ sIndexSuffix) = true := by
@@ -305,14 +280,14 @@ theorem helper_last (v : Bytes) : C01.isHelper (v ++ sLastIndexSuffix) = true :=
   simp [C01.isHelper, List.isSuffixOf_iff_suffix]
 
 /-- the items of a list literal, left to right -/
-theorem evalArgs_sim {m : EEnv} {env : Spec.Eval.Env} (hr : EnvRel coll m env) :
-    (items : ExprList) → fragList coll items = true → ∀ n,
+theorem evalArgs_sim {m : EEnv} {env : Spec.Eval.Env} (hr : EnvRel m env) :
+    (items : ExprList) → fragList items = true → ∀ n,
       (∀ vs, Spec.Eval.evalList env items = .val vs →
-        ∃ mvs n', evalArgs m items n = some (mvs, n') ∧ absL mvs = vs ∧ ∀ x ∈ mvs, Scalar x = true) ∧
+        ∃ mvs n', evalArgs m items n = some (mvs, n') ∧ absL mvs = vs) ∧
       (Spec.Eval.evalList env items = .error → evalArgs m items n = none)
   | .nil, _, n => by
     rw [Spec.Eval.evalList, evalArgs]
-    exact ⟨fun vs h => by simp only [Out.val.injEq] at h; exact ⟨[], n, rfl, by rw [← h]; rfl, by simp⟩, fun h => by simp at h⟩
+    exact ⟨fun vs h => by simp only [Out.val.injEq] at h; exact ⟨[], n, rfl, by rw [← h]; rfl⟩, fun h => by simp at h⟩
   | .cons e r, hf, n => by
     simp only [fragList, Bool.and_eq_true] at hf
     have he := C01.eval_refines_spec_partial hr e hf.1 n
@@ -320,36 +295,32 @@ theorem evalArgs_sim {m : EEnv} {env : Spec.Eval.Env} (hr : EnvRel coll m env) :
     refine ⟨fun vs hv => ?_, fun herr => ?_⟩
     · obtain ⟨v, hv1, hv⟩ := C01.bind_val hv
       obtain ⟨vr, hv2, hv⟩ := C01.bind_val hv
-      obtain ⟨mv, n1, h1, h2, h3⟩ := he.1 v hv1
-      obtain ⟨mvs, n2, h4, h5, h6⟩ := (evalArgs_sim hr r hf.2 n1).1 vr hv2
+      obtain ⟨mv, n1, h1, h2⟩ := he.1 v hv1
+      obtain ⟨mvs, n2, h4, h5⟩ := (evalArgs_sim hr r hf.2 n1).1 vr hv2
       simp only [Out.val.injEq] at hv
       rw [h1]; simp only [h4]
-      refine ⟨mv :: mvs, n2, rfl, by rw [← hv, absL, h2, h5], ?_⟩
-      intro x hx
-      rcases List.mem_cons.mp hx with rfl | hx
-      · exact h3
-      · exact h6 x hx
+      exact ⟨mv :: mvs, n2, rfl, by rw [← hv, absL, h2, h5]⟩
     · rcases C01.bind_err herr with h | ⟨v, hv1, herr⟩
       · rw [he.2 h]
-      · obtain ⟨mv, n1, h1, _, _⟩ := he.1 v hv1
+      · obtain ⟨mv, n1, h1, _⟩ := he.1 v hv1
         rw [h1]
         rcases C01.bind_err herr with h | ⟨vr, _, h⟩
         · simp only [(evalArgs_sim hr r hf.2 n1).2 h]
         · simp at h
 
 /-- `{foreach $x in [e₁, …]}`: the list literal through `evalIn` -/
-theorem evalIn_list_sim {g : GEnv} {ctx : Scope} {st : St} {env : Spec.Eval.Env} (hr : Rel coll g entry ctx st env) (p : Nat)
-    (items : ExprList) (hf : fragList coll items = true) :
+theorem evalIn_list_sim {g : GEnv} {ctx : Scope} {st : St} {env : Spec.Eval.Env} (hr : Rel g entry ctx st env) (p : Nat)
+    (items : ExprList) (hf : fragList items = true) :
     (∀ v, Spec.Eval.eval env (.list p items) = .val v → ∃ id mvs st1, evalIn g (.list p items) ctx st = some (.list id mvs, st1) ∧
-        v = .list (absL mvs) ∧ (∀ x ∈ mvs, Scalar x = true) ∧ st1.heap = st.heap ∧ st1.out = st.out) ∧
+        v = .list (absL mvs) ∧ st1.heap = st.heap ∧ st1.out = st.out) ∧
     (Spec.Eval.eval env (.list p items) = .error → evalIn g (.list p items) ctx st = none) := by
   have h := evalArgs_sim hr.base items hf st.next
   rw [Spec.Eval.eval]
   refine ⟨fun v hv => ?_, fun herr => ?_⟩
   · obtain ⟨vs, hv1, hv⟩ := C01.bind_val hv
-    obtain ⟨mvs, n', h1, h2, h3⟩ := h.1 vs hv1
+    obtain ⟨mvs, n', h1, h2⟩ := h.1 vs hv1
     simp only [Out.val.injEq] at hv
-    refine ⟨(listId mvs.length n').1, mvs, { st with next := (listId mvs.length n').2 }, ?_, by rw [← hv, h2], h3, rfl, rfl⟩
+    refine ⟨(listId mvs.length n').1, mvs, { st with next := (listId mvs.length n').2 }, ?_, by rw [← hv, h2], rfl, rfl⟩
     simp [evalIn, evalE, h1]
   · rcases C01.bind_err herr with h' | ⟨vs, _, h'⟩
     · simp [evalIn, evalE, h.2 h']
@@ -386,15 +357,15 @@ theorem find_filter (B : Spec.Eval.Binds) (key k : Bytes) (h : (key == k) = fals
       rw [ih]
 
 /-- the items of a map literal: the same bindings (a repeated key: the first item on both sides) -/
-theorem evalMapItems_sim {m : EEnv} {env : Spec.Eval.Env} (hr : EnvRel coll m env) :
-    (items : MapItems) → mapFrag coll items = true → ∀ n,
+theorem evalMapItems_sim {m : EEnv} {env : Spec.Eval.Env} (hr : EnvRel m env) :
+    (items : MapItems) → mapFrag items = true → ∀ n,
       (∀ B, Spec.Eval.evalMap env items = .val B →
         ∃ kvs n', evalMapItems m items n = some (kvs, n') ∧
-          (∀ k, Spec.Eval.find B k = (Frame.find kvs k).map absV) ∧ ∀ kv ∈ kvs, Scalar kv.2 = true) ∧
+          (∀ k, Spec.Eval.find B k = (Frame.find kvs k).map absV)) ∧
       (Spec.Eval.evalMap env items = .error → evalMapItems m items n = none)
   | .nil, _, n => by
     rw [Spec.Eval.evalMap, evalMapItems]
-    exact ⟨fun B h => by simp only [Out.val.injEq] at h; exact ⟨[], n, rfl, by rw [← h]; intro k; rfl, by simp⟩, fun h => by simp at h⟩
+    exact ⟨fun B h => by simp only [Out.val.injEq] at h; exact ⟨[], n, rfl, by rw [← h]; intro k; rfl⟩, fun h => by simp at h⟩
   | .cons key e r, hf, n => by
     simp only [mapFrag, Bool.and_eq_true] at hf
     have he := C01.eval_refines_spec_partial hr e hf.1 n
@@ -402,24 +373,20 @@ theorem evalMapItems_sim {m : EEnv} {env : Spec.Eval.Env} (hr : EnvRel coll m en
     refine ⟨fun B hv => ?_, fun herr => ?_⟩
     · obtain ⟨v, hv1, hv⟩ := C01.bind_val hv
       obtain ⟨Br, hv2, hv⟩ := C01.bind_val hv
-      obtain ⟨mv, n1, h1, h2, h3⟩ := he.1 v hv1
-      obtain ⟨kvs, n2, h4, h5, h6⟩ := (evalMapItems_sim hr r hf.2 n1).1 Br hv2
+      obtain ⟨mv, n1, h1, h2⟩ := he.1 v hv1
+      obtain ⟨kvs, n2, h4, h5⟩ := (evalMapItems_sim hr r hf.2 n1).1 Br hv2
       simp only [Out.val.injEq] at hv
       rw [h1]; simp only [h4]
-      refine ⟨(key, mv) :: kvs, n2, rfl, fun k => ?_, ?_⟩
-      · rw [← hv]
-        simp only [Spec.Eval.find, Frame.find]
-        split
-        · simp [h2]
-        · rename_i hk
-          rw [find_filter Br key k (by simpa using hk)]; exact h5 k
-      · intro x hx
-        rcases List.mem_cons.mp hx with rfl | hx
-        · exact h3
-        · exact h6 x hx
+      refine ⟨(key, mv) :: kvs, n2, rfl, fun k => ?_⟩
+      rw [← hv]
+      simp only [Spec.Eval.find, Frame.find]
+      split
+      · simp [h2]
+      · rename_i hk
+        rw [find_filter Br key k (by simpa using hk)]; exact h5 k
     · rcases C01.bind_err herr with h | ⟨v, hv1, herr⟩
       · rw [he.2 h]
-      · obtain ⟨mv, n1, h1, _, _⟩ := he.1 v hv1
+      · obtain ⟨mv, n1, h1, _⟩ := he.1 v hv1
         rw [h1]
         rcases C01.bind_err herr with h | ⟨vr, _, h⟩
         · simp only [(evalMapItems_sim hr r hf.2 n1).2 h]
@@ -454,10 +421,10 @@ theorem applyFn_range_arity (vs : List Val) (h : ¬ ([1, 2, 3].contains vs.lengt
       Spec.Eval.nFloor, Spec.Eval.nCeiling, Spec.Eval.nMin, Spec.Eval.nMax, Spec.Eval.nStrContains]
 
 /-- `{for $i in range(…)}`: the range call through `evalIn` -/
-theorem evalIn_range_sim {g : GEnv} {ctx : Scope} {st : St} {env : Spec.Eval.Env} (hr : Rel coll g entry ctx st env) (p : Nat)
-    (args : ExprList) (hf : fragList coll args = true) :
+theorem evalIn_range_sim {g : GEnv} {ctx : Scope} {st : St} {env : Spec.Eval.Env} (hr : Rel g entry ctx st env) (p : Nat)
+    (args : ExprList) (hf : fragList args = true) :
     (∀ v, Spec.Eval.eval env (.func p fRange args) = .val v → ∃ id mvs st1, evalIn g (.func p fRange args) ctx st = some (.list id mvs, st1) ∧
-        v = .list (absL mvs) ∧ (∀ x ∈ mvs, Scalar x = true) ∧ st1.heap = st.heap ∧ st1.out = st.out) ∧
+        v = .list (absL mvs) ∧ st1.heap = st.heap ∧ st1.out = st.out) ∧
     (Spec.Eval.eval env (.func p fRange args) = .error → evalIn g (.func p fRange args) ctx st = none) := by
   have h := evalArgs_sim hr.base args hf st.next
   have hloopS : Spec.Eval.isLoopFn fRange = false := by decide
@@ -470,9 +437,9 @@ theorem evalIn_range_sim {g : GEnv} {ctx : Scope} {st : St} {env : Spec.Eval.Env
   rw [hS]
   refine ⟨fun v hv => ?_, fun herr => ?_⟩
   · obtain ⟨vs, hv1, hv⟩ := C01.bind_val hv
-    obtain ⟨mvs, n', h1, h2, h3⟩ := h.1 vs hv1
+    obtain ⟨mvs, n', h1, h2⟩ := h.1 vs hv1
     rw [hname, ← h2] at hv
-    obtain ⟨id, xs, n'', ha, hveq, hxs⟩ := (range_apply mvs h3 n').1 v hv
+    obtain ⟨id, xs, n'', ha, hveq, _⟩ := (range_apply mvs n').1 v hv
     have hlen : [1, 2, 3].contains args.length = true := by
       apply Classical.byContradiction
       intro hc
@@ -480,7 +447,7 @@ theorem evalIn_range_sim {g : GEnv} {ctx : Scope} {st : St} {env : Spec.Eval.Env
         rw [absL_length, evalArgs_length args _ mvs n' h1]; exact hc
       rw [applyFn_range_arity _ this] at hv
       simp at hv
-    refine ⟨id, xs, { st with next := n'' }, ?_, hveq, hxs, rfl, rfl⟩
+    refine ⟨id, xs, { st with next := n'' }, ?_, hveq, rfl, rfl⟩
     have hlen' : ¬(¬args.length = 1 ∧ ¬args.length = 2 ∧ ¬args.length = 3) := by
       intro hc; have : ¬ ([1, 2, 3].contains args.length = true) := by simpa using hc
       exact this hlen
@@ -488,9 +455,9 @@ theorem evalIn_range_sim {g : GEnv} {ctx : Scope} {st : St} {env : Spec.Eval.Env
   · by_cases hlen : [1, 2, 3].contains args.length = true
     · rcases C01.bind_err herr with h' | ⟨vs, hv1, h'⟩
       · simp [evalIn, evalE, hloopM, har, h.2 h']
-      · obtain ⟨mvs, n', h1, h2, h3⟩ := h.1 vs hv1
+      · obtain ⟨mvs, n', h1, h2⟩ := h.1 vs hv1
         rw [hname, ← h2] at h'
-        simp [evalIn, evalE, hloopM, har, h1, (range_apply mvs h3 n').2 h']
+        simp [evalIn, evalE, hloopM, har, h1, (range_apply mvs n').2 h']
     · have hlen' : ¬args.length = 1 ∧ ¬args.length = 2 ∧ ¬args.length = 3 := by simpa using hlen
       simp [evalIn, evalE, hloopM, har, hlen']
 
@@ -513,12 +480,12 @@ def BundleOk (g : GEnv) (hasBundle : Bool) (dsem : Option Spec.Eval.LibSem) : Pr
   ∀ B, Spec.Eval.msgsOf dsem = some B →
     ∃ b, g.msgs = some b ∧ (∀ n, B.pluralCase n = b.pluralCase n) ∧ ∀ id, B.message id = (b.message id).map toT
 
-/-- the interpreter's directive implementations compute what the specification's parameter `F` says, on
-    scalars -/
+/-- the interpreter's directive implementations compute what the specification's parameter `F` says (where
+    `F` says something) -/
 def DirAgree (F : Bytes → Val → List Val → Out Val) : Prop :=
-  ∀ impl mv margs, Scalar mv = true → (∀ x ∈ margs, Scalar x = true) →
+  ∀ impl mv margs,
     (∀ v', F impl (absV mv) (absL margs) = .val v' →
-      ∃ mv', applyDirective impl mv margs = some mv' ∧ absV mv' = v' ∧ Scalar mv' = true) ∧
+      ∃ mv', applyDirective impl mv margs = some mv' ∧ absV mv' = v') ∧
     (F impl (absV mv) (absL margs) = .error → applyDirective impl mv margs = none)
 
 /-- the specification's directive semantics (if one is supplied) is the interpreter's: the same table, and
@@ -554,22 +521,22 @@ theorem evalPrintAt_ok {g : GEnv} {esc e' : Bool} {pos : Nat} {arg : Expr} {dirs
   cases mv <;> simp_all
 
 section
-variable {coll : Bytes → Bool} (g : GEnv) (hob : g.oblig = []) (esc : Bool) (call : Registry.Tmpl → Run) (hcall : ∀ t, GoodRun (call t))
+variable (g : GEnv) (hob : g.oblig = []) (esc : Bool) (call : Registry.Tmpl → Run) (hcall : ∀ t, GoodRun (call t))
   (reg : Registry.Reg) (hasBundle : Bool) (entry : Spec.Eval.Binds) (scall : Registry.Tmpl → Spec.Eval.CallEnv → Out Bytes)
   (dsem : Option Spec.Eval.LibSem)
   (hreg : g.reg = reg) (hmsg : BundleOk g hasBundle dsem) (hdir : DirOk g (Spec.Eval.dirsOf dsem))
   (hcs : ∀ (t : Registry.Tmpl), t ∈ reg → ∀ (cctx : Scope) (s2 : St) (ce : Spec.Eval.CallEnv),
-    Rel coll g ce.entry cctx s2 { vars := ce.entry, loops := [], ij := ce.ij, globals := ce.globals } → Own cctx s2 → ScopeOk cctx s2 →
+    Rel g ce.entry cctx s2 { vars := ce.entry, loops := [], ij := ce.ij, globals := ce.globals } → Own cctx s2 → ScopeOk cctx s2 →
     AgreeT s2 (call t cctx s2) (scall t ce))
 
 /-- a block whose body agrees command by command agrees as a block -/
 theorem block_agree (body : Run) (sbody : Spec.Eval.Env → Out Bytes) (hgood : GoodRun body)
-    (hb : ∀ ctx st env, Rel coll g entry ctx st env → Own ctx st → ScopeOk ctx st →
-      ∃ o : Spec.Eval.ROut, (Agree coll g entry ctx st (body ctx st) o) ∧ sbody env = o.bind fun p => .val p.1)
-    (ctx : Scope) (st : St) (env : Spec.Eval.Env) (hr : Rel coll g entry ctx st env) (hok : ScopeOk ctx st) :
-    AgreeB coll g entry ctx st env (walkBlockOf body ctx st) (sbody env) := by
+    (hb : ∀ ctx st env, Rel g entry ctx st env → Own ctx st → ScopeOk ctx st →
+      ∃ o : Spec.Eval.ROut, (Agree g entry ctx st (body ctx st) o) ∧ sbody env = o.bind fun p => .val p.1)
+    (ctx : Scope) (st : St) (env : Spec.Eval.Env) (hr : Rel g entry ctx st env) (hok : ScopeOk ctx st) :
+    AgreeB g entry ctx st env (walkBlockOf body ctx st) (sbody env) := by
   obtain ⟨hctx1, hown1, hext1, hout1⟩ := push_spec ctx st
-  have hr1 : Rel coll g entry (push ctx st).1 (push ctx st).2 env := hr.pushed hok
+  have hr1 : Rel g entry (push ctx st).1 (push ctx st).2 env := hr.pushed hok
   have hok1 : ScopeOk (push ctx st).1 (push ctx st).2 := by
     intro f hf
     rw [hctx1] at hf
@@ -601,8 +568,8 @@ theorem block_agree (body : Run) (sbody : Spec.Eval.Env → Out Bytes) (hgood : 
 
 omit hob in
 /-- the case values of a {switch}: `matchCase` against the specification's `matchAny` -/
-theorem matchCase_sim {ctx : Scope} {env : Spec.Eval.Env} (sv : Value) (hsv : Scalar sv = true) :
-    ∀ (vs : List Expr) (st : St), Rel coll g entry ctx st env → vs.all (frag coll) = true →
+theorem matchCase_sim {ctx : Scope} {env : Spec.Eval.Env} (sv : Value) :
+    ∀ (vs : List Expr) (st : St), Rel g entry ctx st env → vs.all (frag) = true →
       (∀ b, Spec.Eval.matchAny env (absV sv) vs = .val b →
         ∃ st1, matchCase g ctx sv vs st = some (b, st1) ∧ st1.heap = st.heap ∧ st1.out = st.out) ∧
       (Spec.Eval.matchAny env (absV sv) vs = .error → matchCase g ctx sv vs st = none) := by
@@ -623,8 +590,8 @@ theorem matchCase_sim {ctx : Scope} {env : Spec.Eval.Env} (sv : Value) (hsv : Sc
     | unspec => simp [Spec.Eval.Out.bind]
     | error => simp [Spec.Eval.Out.bind, h2 hv]
     | val v =>
-      obtain ⟨mv, st1, he, habs, hsc, hheap, hout⟩ := h1 v hv
-      obtain ⟨q1, q2⟩ := equals_refines sv mv hsv hsc
+      obtain ⟨mv, st1, he, habs, hheap, hout⟩ := h1 v hv
+      obtain ⟨q1, q2⟩ := equals_refines sv mv
       rw [habs] at q1 q2
       simp only [Spec.Eval.Out.bind, he]
       cases hq : Spec.Eval.equalsV (absV sv) v with
@@ -675,43 +642,55 @@ theorem find_bind (env : Spec.Eval.Env) (name : Bytes) (v : Val) (k : Bytes) :
     have h2 : (k == name) = false := by simpa using fun e => h e.symm
     simp [h1, h2]
 
-/-- binding a scalar in the top frame corresponds to extending the lexical environment -/
+/-- binding a value in the top frame corresponds to extending the lexical environment -/
 theorem Rel.set {ctx : Scope} {st st2 : St} {env : Spec.Eval.Env} {name : Bytes} {mv : Value}
-    (hr : Rel coll g entry ctx st env) (hown : Own ctx st) (hs : Eval.set ctx st name mv = some st2) (hsc : Scalar mv = true) :
-    Rel coll g entry ctx st2 (env.bind name (absV mv)) := by
-  refine ⟨⟨fun k hk => ?_, fun k hc => ?_, hr.base.globals⟩, fun k => ?_, hr.ent.of_ext_top (set_ext hown hs)⟩
-  · show absV (lookup st2.heap ctx k) = _
-    rw [lookup_set hown hs k, find_bind]
-    split
-    · rfl
-    · exact hr.base.vars k hk
-  · show Scalar (lookup st2.heap ctx k) = true
-    rw [lookup_set hown hs k]
-    split
-    · exact hsc
-    · exact hr.base.scalar k hc
-  · rw [lookup_set hown hs k]
-    split
-    · exact Shallow.of_scalar hsc
-    · exact hr.shallow k
+    (hr : Rel g entry ctx st env) (hown : Own ctx st) (hs : Eval.set ctx st name mv = some st2) :
+    Rel g entry ctx st2 (env.bind name (absV mv)) := by
+  refine ⟨⟨fun k hk => ?_, hr.base.globals⟩, hr.ent.of_ext_top (set_ext hown hs)⟩
+  show absV (lookup st2.heap ctx k) = _
+  rw [lookup_set hown hs k, find_bind]
+  split
+  · rfl
+  · exact hr.base.vars k hk
+
+omit hob hcall hreg hmsg hdir hcs in
+/-- A loop over `$x` changes the lookup of NO variable name other than `x`: in the frame an iteration runs in
+    (pushed, then `x.lastIndex`, `x`, `x.index` bound — the three `set`s of the {foreach} walk) every name
+    without a '.' other than `x` reads what it read before the loop.  (The bookkeeping names contain a '.',
+    which no variable name can: the loop hides no variable of the template.) -/
+theorem loop_hides_only_its_variable (var : Bytes) (x : Value) (last i : Int64) (ctx : Scope) (st st2 st3 st4 : St)
+    (hok : ScopeOk ctx st)
+    (h2 : Eval.set (push ctx st).1 (push ctx st).2 (var ++ sLastIndexSuffix) (.int last) = some st2)
+    (h3 : Eval.set (push ctx st).1 st2 var x = some st3)
+    (h4 : Eval.set (push ctx st).1 st3 (var ++ sIndexSuffix) (.int i) = some st4) :
+    ∀ k, k ≠ var → (46 : UInt8) ∉ k → lookup st4.heap (push ctx st).1 k = lookup st.heap ctx k := by
+  intro k hk hdot
+  obtain ⟨_, hown1, _, _⟩ := push_spec ctx st
+  have own2 := hown1.ext (set_ext hown1 h2)
+  have own3 := own2.ext (set_ext own2 h3)
+  rw [lookup_set own3 h4 k, lookup_set own2 h3 k, lookup_set hown1 h2 k, lookup_push ctx st hok k]
+  have n1 : (k == var ++ sIndexSuffix) = false := by
+    apply beq_false_of_ne; intro e; apply hdot; rw [e]; simp [sIndexSuffix]
+  have n2 : (k == var ++ sLastIndexSuffix) = false := by
+    apply beq_false_of_ne; intro e; apply hdot; rw [e]; simp [sLastIndexSuffix]
+  have n3 : (k == var) = false := by simpa using hk
+  simp [n1, n2, n3]
 
 omit hob in
 /-- the iterations of a {foreach}: each runs in a frame of its own that binds the loop variable (and the
     helpers, which the fragment cannot read); afterwards every binding is what it was -/
 theorem loop_agree (body : Run) (sbody : Spec.Eval.Env → Out Bytes) (hgood : GoodRun body)
-    (hb : ∀ ctx st env, Rel coll g entry ctx st env → Own ctx st → ScopeOk ctx st →
-      ∃ o : Spec.Eval.ROut, (Agree coll g entry ctx st (body ctx st) o) ∧ sbody env = o.bind fun p => .val p.1)
+    (hb : ∀ ctx st env, Rel g entry ctx st env → Own ctx st → ScopeOk ctx st →
+      ∃ o : Spec.Eval.ROut, (Agree g entry ctx st (body ctx st) o) ∧ sbody env = o.bind fun p => .val p.1)
     (var : Bytes) (last : Int) (lastN : Nat) :
     ∀ (xs : List Value) (i : Nat) (ctx : Scope) (st : St) (env : Spec.Eval.Env),
-      Rel coll g entry ctx st env → ScopeOk ctx st → (∀ x ∈ xs, Scalar x = true) →
-      AgreeB coll g entry ctx st env (forLoop body var last xs i ctx st) (Spec.Eval.loopSpec sbody env var lastN (absL xs) i) := by
+      Rel g entry ctx st env → ScopeOk ctx st →
+      AgreeB g entry ctx st env (forLoop body var last xs i ctx st) (Spec.Eval.loopSpec sbody env var lastN (absL xs) i) := by
   intro xs
   induction xs with
-  | nil => intro i ctx st env hr _ _; unfold forLoop; rw [absL, Spec.Eval.loopSpec]; exact ⟨rfl, by simp, hr⟩
+  | nil => intro i ctx st env hr _; unfold forLoop; rw [absL, Spec.Eval.loopSpec]; exact ⟨rfl, by simp, hr⟩
   | cons x rest ih =>
-    intro i ctx st env hr hok hsc
-    have hx : Scalar x = true := hsc x List.mem_cons_self
-    have hrest : ∀ y ∈ rest, Scalar y = true := fun y hy => hsc y (List.mem_cons_of_mem _ hy)
+    intro i ctx st env hr hok
     obtain ⟨hctx1, hown1, hext1, hout1⟩ := push_spec ctx st
     have htop : top (push ctx st).1 = st.heap.length := by rw [hctx1]; rfl
     have fresh : ∀ {s' : St}, Ext (fun i => i = top (push ctx st).1) (push ctx st).2 s' → Ext (fun _ => False) st s' :=
@@ -745,35 +724,18 @@ theorem loop_agree (body : Run) (sbody : Spec.Eval.Env → Out Bytes) (hgood : G
               else lookup st.heap ctx k := by
             intro k
             rw [lookup_set own3 h4 k, lookup_set own2 h3 k, lookup_set hown1 h2 k, lookup_push ctx st hok k]
-          have hr4 : Rel coll g entry (push ctx st).1 st4 { (env.bind var (absV x)) with loops := (var, i, lastN) :: env.loops } := by
-            refine ⟨⟨fun k hk => ?_, fun k hc => ?_, hr.base.globals⟩, fun k => ?_, (hr.pushed hok).ent.of_ext_top e4⟩
-            · show absV (lookup st4.heap (push ctx st).1 k) = (env.bind var (absV x)).lookup k
-              rw [hlk k, find_bind]
-              have n1 : (k == var ++ sIndexSuffix) = false := by
-                apply beq_false_of_ne; intro e; rw [e, helper_index] at hk; cases hk
-              have n2 : (k == var ++ sLastIndexSuffix) = false := by
-                apply beq_false_of_ne; intro e; rw [e, helper_last] at hk; cases hk
-              simp only [n1, n2, Bool.false_eq_true, if_false]
-              split
-              · rfl
-              · exact hr.base.vars k hk
-            · show Scalar (lookup st4.heap (push ctx st).1 k) = true
-              rw [hlk k]
-              split
-              · rfl
-              · split
-                · exact hx
-                · split
-                  · rfl
-                  · exact hr.base.scalar k hc
-            · rw [hlk k]
-              split
-              · rfl
-              · split
-                · exact Shallow.of_scalar hx
-                · split
-                  · rfl
-                  · exact hr.shallow k
+          have hr4 : Rel g entry (push ctx st).1 st4 { (env.bind var (absV x)) with loops := (var, i, lastN) :: env.loops } := by
+            refine ⟨⟨fun k hk => ?_, hr.base.globals⟩, (hr.pushed hok).ent.of_ext_top e4⟩
+            show absV (lookup st4.heap (push ctx st).1 k) = (env.bind var (absV x)).lookup k
+            rw [hlk k, find_bind]
+            have n1 : (k == var ++ sIndexSuffix) = false := by
+              apply beq_false_of_ne; intro e; rw [e, helper_index] at hk; cases hk
+            have n2 : (k == var ++ sLastIndexSuffix) = false := by
+              apply beq_false_of_ne; intro e; rw [e, helper_last] at hk; cases hk
+            simp only [n1, n2, Bool.false_eq_true, if_false]
+            split
+            · rfl
+            · exact hr.base.vars k hk
           have hok4 : ScopeOk (push ctx st).1 st4 := by
             intro f hf
             rw [hctx1] at hf
@@ -801,9 +763,9 @@ theorem loop_agree (body : Run) (sbody : Spec.Eval.Env → Out Bytes) (hgood : G
             rw [hg.ctx_eq hcls, hctx1]
             simp only [pop_cons]
             have hext : Ext (fun _ => False) st (body (push ctx st).1 st4).st := fresh e5
-            have hr5 : Rel coll g entry ctx (body (push ctx st).1 st4).st env := hr.of_ext hext hok (fun _ _ h => h)
+            have hr5 : Rel g entry ctx (body (push ctx st).1 st4).st env := hr.of_ext hext hok (fun _ _ h => h)
             have hok5 : ScopeOk ctx (body (push ctx st).1 st4).st := fun f hf' => Nat.lt_of_lt_of_le (hok f hf') hext.len
-            have hi := ih (i + 1) ctx _ env hr5 hok5 hrest
+            have hi := ih (i + 1) ctx _ env hr5 hok5
             rw [hctx1] at hi hbytes
             cases hl : Spec.Eval.loopSpec sbody env var lastN (absL rest) (i + 1) with
             | unspec => simp [AgreeB]
@@ -824,30 +786,30 @@ theorem find_cons (B : Spec.Eval.Binds) (key : Bytes) (v : Val) (k : Bytes) :
     simp [h1, h2]
 
 /-- the params of a call against the specification's: the callee's data scope `cd` binds them over `B` -/
-def AgreeP (coll : Bytes → Bool) (cd : Scope) (st : St) (B : Spec.Eval.Binds) (r : R) : Out Spec.Eval.Binds → Prop
-  | .val R => r.cls = .ok ∧ FrameRel coll r.st.heap cd (R ++ B) ∧ r.st.out = st.out
+def AgreeP (cd : Scope) (st : St) (B : Spec.Eval.Binds) (r : R) : Out Spec.Eval.Binds → Prop
+  | .val R => r.cls = .ok ∧ FrameRel r.st.heap cd (R ++ B) ∧ r.st.out = st.out
   | .error => r.cls = .err
   | .unspec => True
 
-/-- the evaluation of `E` agrees with the specification's: the same value (up to identities) — a scalar, a
-    list of scalars or a map of scalars —, no change of the heap or of the output -/
-def ValSim (coll : Bytes → Bool) (g : GEnv) (E : Expr) (ctx : Scope) (st : St) (env : Spec.Eval.Env) : Prop :=
+/-- the evaluation of `E` agrees with the specification's: the same value (up to identities), no change of
+    the heap or of the output -/
+def ValSim (g : GEnv) (E : Expr) (ctx : Scope) (st : St) (env : Spec.Eval.Env) : Prop :=
   (∀ v, Spec.Eval.eval env E = .val v → ∃ mv st1, evalIn g E ctx st = some (mv, st1) ∧ absV mv = v ∧
-      Shallow mv = true ∧ st1.heap = st.heap ∧ st1.out = st.out) ∧
+      st1.heap = st.heap ∧ st1.out = st.out) ∧
   (Spec.Eval.eval env E = .error → evalIn g E ctx st = none)
 
 /-- a list-valued evaluation (a list literal, a range) in the `ValSim` form -/
 theorem ValSim.of_list {E : Expr} {ctx : Scope} {st : St} {env : Spec.Eval.Env}
     (h : (∀ v, Spec.Eval.eval env E = .val v → ∃ id mvs st1, evalIn g E ctx st = some (.list id mvs, st1) ∧
-          v = .list (absL mvs) ∧ (∀ x ∈ mvs, Scalar x = true) ∧ st1.heap = st.heap ∧ st1.out = st.out) ∧
-        (Spec.Eval.eval env E = .error → evalIn g E ctx st = none)) : ValSim coll g E ctx st env := by
+          v = .list (absL mvs) ∧ st1.heap = st.heap ∧ st1.out = st.out) ∧
+        (Spec.Eval.eval env E = .error → evalIn g E ctx st = none)) : ValSim g E ctx st env := by
   refine ⟨fun v hv => ?_, h.2⟩
-  obtain ⟨id, mvs, st1, he, hveq, hsc, hh, ho⟩ := h.1 v hv
-  exact ⟨.list id mvs, st1, he, by rw [hveq]; rfl, by simpa [Shallow] using hsc, hh, ho⟩
+  obtain ⟨id, mvs, st1, he, hveq, hh, ho⟩ := h.1 v hv
+  exact ⟨.list id mvs, st1, he, by rw [hveq]; rfl, hh, ho⟩
 
 /-- a variable (not `$ij`, not a loop helper): whatever it holds -/
-theorem ValSim.of_var {ctx : Scope} {st : St} {env : Spec.Eval.Env} (hr : Rel coll g entry ctx st env) (p : Nat) (key : Bytes)
-    (hk : (key == sIj) = false) (hh : C01.isHelper key = false) : ValSim coll g (.dataRef p key .nil) ctx st env := by
+theorem ValSim.of_var {ctx : Scope} {st : St} {env : Spec.Eval.Env} (hr : Rel g entry ctx st env) (p : Nat) (key : Bytes)
+    (hk : (key == sIj) = false) (hh : C01.isHelper key = false) : ValSim g (.dataRef p key .nil) ctx st env := by
   have hk2 : (key == Spec.Eval.sIj) = false := hk
   have hS : Spec.Eval.eval env (.dataRef p key .nil) = .val (env.lookup key) := by
     rw [Spec.Eval.eval]; simp only [hk2, Bool.false_eq_true, if_false, Spec.Eval.evalAcc]
@@ -856,29 +818,15 @@ theorem ValSim.of_var {ctx : Scope} {st : St} {env : Spec.Eval.Env} (hr : Rel co
   rw [ValSim, hS]
   refine ⟨fun v hv => ?_, fun h => by simp at h⟩
   simp only [Out.val.injEq] at hv
-  exact ⟨_, st, hM, by rw [← hv]; exact hr.base.vars key hh, hr.shallow key, rfl, rfl⟩
+  exact ⟨_, st, hM, by rw [← hv]; exact hr.base.vars key hh, rfl, rfl⟩
 
 /-- what a loop ranges over, in the `ValSim` form -/
-theorem listFrag_sim {ctx : Scope} {st : St} {env : Spec.Eval.Env} (hr : Rel coll g entry ctx st env) (E : Expr)
-    (hf : listFrag coll E = true) : ValSim coll g E ctx st env := by
-  cases E with
-  | list p items => exact ValSim.of_list g (evalIn_list_sim hr p items (by simpa [listFrag] using hf))
-  | func p name args =>
-    simp only [listFrag, Bool.and_eq_true, beq_iff_eq] at hf
-    obtain ⟨hn, ha⟩ := hf
-    subst hn
-    exact ValSim.of_list g (evalIn_range_sim hr p args ha)
-  | dataRef p key acc =>
-    cases acc with
-    | nil =>
-      simp only [listFrag, Bool.and_eq_true, bne_iff_ne, ne_eq, Bool.not_eq_true'] at hf
-      exact ValSim.of_var g entry hr p key (by simpa using hf.1) hf.2
-    | cons _ _ => simp [listFrag] at hf
-  | _ => simp [listFrag] at hf
+theorem listFrag_sim {ctx : Scope} {st : St} {env : Spec.Eval.Env} (hr : Rel g entry ctx st env) (E : Expr)
+    (hf : listFrag E = true) : ValSim g E ctx st env := evalIn_sim hr E hf
 
-/-- a map-valued evaluation against the specification's: the same bindings, scalars -/
+/-- a map-valued evaluation against the specification's: the same bindings -/
 def MapSim (v : Val) : Value → Prop
-  | .map _ kvs => ∃ B, v = .map B ∧ (∀ k, Spec.Eval.find B k = (Frame.find kvs k).map absV) ∧ ∀ kv ∈ kvs, Scalar kv.2 = true
+  | .map _ kvs => ∃ B, v = .map B ∧ (∀ k, Spec.Eval.find B k = (Frame.find kvs k).map absV)
   | _ => ∀ B, v ≠ .map B
 
 /-- the evaluation of a {call}'s data expression agrees with the specification's -/
@@ -888,47 +836,44 @@ def DataSim (g : GEnv) (d : Expr) (ctx : Scope) (st : St) (env : Spec.Eval.Env) 
   (Spec.Eval.eval env d = .error → evalIn g d ctx st = none)
 
 theorem DataSim.of_valSim {d : Expr} {ctx : Scope} {st : St} {env : Spec.Eval.Env}
-    (h : ValSim coll g d ctx st env) : DataSim g d ctx st env := by
+    (h : ValSim g d ctx st env) : DataSim g d ctx st env := by
   refine ⟨fun v hv => ?_, h.2⟩
-  obtain ⟨mv, st1, he, habs, hsh, hh, ho⟩ := h.1 v hv
+  obtain ⟨mv, st1, he, habs, hh, ho⟩ := h.1 v hv
   refine ⟨mv, st1, he, ?_, hh, ho⟩
   cases mv with
   | map id kvs =>
-    exact ⟨absK kvs, by rw [← habs]; rfl, find_absK kvs, by simpa [Shallow] using hsh⟩
+    exact ⟨absK kvs, by rw [← habs]; rfl, find_absK kvs⟩
   | _ => intro B hB; rw [← habs] at hB; simp [absV] at hB
 
 /-- what a {call} passes as data, in the `DataSim` form -/
-theorem dataFrag_sim {ctx : Scope} {st : St} {env : Spec.Eval.Env} (hr : Rel coll g entry ctx st env) (d : Expr)
-    (hf : dataFrag coll d = true) : DataSim g d ctx st env := by
-  cases d with
-  | map p items =>
-    have h := evalMapItems_sim hr.base items (by simpa [dataFrag] using hf) st.next
-    rw [DataSim, Spec.Eval.eval]
-    refine ⟨fun v hv => ?_, fun herr => ?_⟩
-    · obtain ⟨B, hv1, hv⟩ := C01.bind_val hv
-      obtain ⟨kvs, n', h1, h2, h3⟩ := h.1 B hv1
-      simp only [Out.val.injEq] at hv
-      refine ⟨.map n' kvs, { st with next := n' + 1 }, by simp [evalIn, evalE, h1], ⟨B, hv.symm, h2, h3⟩, rfl, rfl⟩
-    · rcases C01.bind_err herr with h' | ⟨vs, _, h'⟩
-      · simp [evalIn, evalE, h.2 h']
-      · simp at h'
-  | dataRef p key acc =>
-    cases acc with
-    | nil =>
-      simp only [dataFrag, Bool.and_eq_true, bne_iff_ne, ne_eq, Bool.not_eq_true'] at hf
-      exact DataSim.of_valSim g (ValSim.of_var g entry hr p key (by simpa using hf.1) hf.2)
-    | cons _ _ => simp [dataFrag] at hf
-  | _ => simp [dataFrag] at hf
+theorem dataFrag_sim {ctx : Scope} {st : St} {env : Spec.Eval.Env} (hr : Rel g entry ctx st env) (d : Expr)
+    (hf : dataFrag d = true) : DataSim g d ctx st env := by
+  by_cases hfr : frag d = true
+  · exact DataSim.of_valSim g (evalIn_sim hr d hfr)
+  · have hfr' : frag d = false := by simpa using hfr
+    simp only [dataFrag, hfr', Bool.false_or] at hf
+    cases d with
+    | map p items =>
+      have h := evalMapItems_sim hr.base items hf st.next
+      rw [DataSim, Spec.Eval.eval]
+      refine ⟨fun v hv => ?_, fun herr => ?_⟩
+      · obtain ⟨B, hv1, hv⟩ := C01.bind_val hv
+        obtain ⟨kvs, n', h1, h2⟩ := h.1 B hv1
+        simp only [Out.val.injEq] at hv
+        refine ⟨.map n' kvs, { st with next := n' + 1 }, by simp [evalIn, evalE, h1], ⟨B, hv.symm, h2⟩, rfl, rfl⟩
+      · rcases C01.bind_err herr with h' | ⟨vs, _, h'⟩
+        · simp [evalIn, evalE, h.2 h']
+        · simp at h'
+    | _ => simp at hf
 
 /-- a list of expressions (the arguments of a directive), left to right -/
-theorem evalList_sim {ctx : Scope} {env : Spec.Eval.Env} : ∀ (es : List Expr), es.all (frag coll) = true → ∀ (st : St),
-    Rel coll g entry ctx st env →
-    (∀ vs, Spec.Eval.evalAll env es = .val vs → ∃ mvs st1, evalList g ctx es st = some (mvs, st1) ∧ absL mvs = vs ∧
-        (∀ x ∈ mvs, Scalar x = true) ∧ st1.heap = st.heap ∧ st1.out = st.out) ∧
+theorem evalList_sim {ctx : Scope} {env : Spec.Eval.Env} : ∀ (es : List Expr), es.all (frag) = true → ∀ (st : St),
+    Rel g entry ctx st env →
+    (∀ vs, Spec.Eval.evalAll env es = .val vs → ∃ mvs st1, evalList g ctx es st = some (mvs, st1) ∧ absL mvs = vs ∧ st1.heap = st.heap ∧ st1.out = st.out) ∧
     (Spec.Eval.evalAll env es = .error → evalList g ctx es st = none)
   | [], _, st, _ => by
     rw [Spec.Eval.evalAll, evalList]
-    exact ⟨fun vs h => by simp only [Out.val.injEq] at h; exact ⟨[], st, rfl, by rw [← h]; rfl, by simp, rfl, rfl⟩, fun h => by simp at h⟩
+    exact ⟨fun vs h => by simp only [Out.val.injEq] at h; exact ⟨[], st, rfl, by rw [← h]; rfl, rfl, rfl⟩, fun h => by simp at h⟩
   | e :: r, hf, st, hr => by
     simp only [List.all_cons, Bool.and_eq_true] at hf
     obtain ⟨h1, h2⟩ := evalIn_sim hr e hf.1
@@ -936,18 +881,14 @@ theorem evalList_sim {ctx : Scope} {env : Spec.Eval.Env} : ∀ (es : List Expr),
     refine ⟨fun vs hv => ?_, fun herr => ?_⟩
     · obtain ⟨v, hv1, hv⟩ := C01.bind_val hv
       obtain ⟨vr, hv2, hv⟩ := C01.bind_val hv
-      obtain ⟨mv, st1, he, habs, hsc, hh, ho⟩ := h1 v hv1
-      obtain ⟨mvs, st2, hes, habs2, hsc2, hh2, ho2⟩ := (evalList_sim r hf.2 st1 (hr.of_heap hh)).1 vr hv2
+      obtain ⟨mv, st1, he, habs, hh, ho⟩ := h1 v hv1
+      obtain ⟨mvs, st2, hes, habs2, hh2, ho2⟩ := (evalList_sim r hf.2 st1 (hr.of_heap hh)).1 vr hv2
       simp only [Out.val.injEq] at hv
       rw [he]; simp only [hes]
-      refine ⟨mv :: mvs, st2, rfl, by rw [← hv, absL, habs, habs2], ?_, by rw [hh2, hh], by rw [ho2, ho]⟩
-      intro x hx
-      rcases List.mem_cons.mp hx with rfl | hx
-      · exact hsc
-      · exact hsc2 x hx
+      exact ⟨mv :: mvs, st2, rfl, by rw [← hv, absL, habs, habs2], by rw [hh2, hh], by rw [ho2, ho]⟩
     · rcases C01.bind_err herr with h | ⟨v, hv1, herr⟩
       · rw [h2 h]
-      · obtain ⟨mv, st1, he, _, _, hh, _⟩ := h1 v hv1
+      · obtain ⟨mv, st1, he, _, hh, _⟩ := h1 v hv1
         rw [he]
         rcases C01.bind_err herr with h | ⟨vr, _, h⟩
         · simp only [(evalList_sim r hf.2 st1 (hr.of_heap hh)).2 h]
@@ -956,16 +897,16 @@ theorem evalList_sim {ctx : Scope} {env : Spec.Eval.Env} : ∀ (es : List Expr),
 include hdir in
 /-- the directive loop of a print: left to right, an unknown name or a wrong number of arguments fails,
     a cancelling directive clears the escape flag -/
-theorem runDirectives_sim {ctx : Scope} {env : Spec.Eval.Env} : ∀ (ds : List Directive), dirsFrag coll ds = true →
-    ∀ (mv : Value) (esc : Bool) (st : St), Scalar mv = true → Rel coll g entry ctx st env →
+theorem runDirectives_sim {ctx : Scope} {env : Spec.Eval.Env} : ∀ (ds : List Directive), dirsFrag ds = true →
+    ∀ (mv : Value) (esc : Bool) (st : St), Rel g entry ctx st env →
     (∀ r, Spec.Eval.runDirs (Spec.Eval.dirsOf dsem) env ds (absV mv) esc = .val r → ∃ mv' st2,
-        runDirectives g ctx ds mv esc st = some (mv', r.2, st2) ∧ absV mv' = r.1 ∧ Scalar mv' = true ∧
+        runDirectives g ctx ds mv esc st = some (mv', r.2, st2) ∧ absV mv' = r.1 ∧
         st2.heap = st.heap ∧ st2.out = st.out) ∧
     (Spec.Eval.runDirs (Spec.Eval.dirsOf dsem) env ds (absV mv) esc = .error → runDirectives g ctx ds mv esc st = none)
-  | [], _, mv, esc, st, hsc, _ => by
+  | [], _, mv, esc, st, _ => by
     rw [Spec.Eval.runDirs, runDirectives]
-    exact ⟨fun r h => by simp only [Out.val.injEq] at h; subst h; exact ⟨mv, st, rfl, rfl, hsc, rfl, rfl⟩, fun h => by simp at h⟩
-  | d :: ds, hf, mv, esc, st, hsc, hr => by
+    exact ⟨fun r h => by simp only [Out.val.injEq] at h; subst h; exact ⟨mv, st, rfl, rfl, rfl, rfl⟩, fun h => by simp at h⟩
+  | d :: ds, hf, mv, esc, st, hr => by
     simp only [dirsFrag, List.all_cons, Bool.and_eq_true] at hf
     have ihds := runDirectives_sim (ctx := ctx) (env := env) ds hf.2
     cases hD : Spec.Eval.dirsOf dsem with
@@ -987,46 +928,46 @@ theorem runDirectives_sim {ctx : Scope} {env : Spec.Eval.Env} : ∀ (ds : List D
           refine ⟨fun r hv => ?_, fun herr => ?_⟩
           · obtain ⟨args, hv1, hv⟩ := C01.bind_val hv
             obtain ⟨v', hv2, hv⟩ := C01.bind_val hv
-            obtain ⟨margs, st1, hes, habs, hscs, hh, ho⟩ := ha1 args hv1
+            obtain ⟨margs, st1, hes, habs, hh, ho⟩ := ha1 args hv1
             subst habs
-            obtain ⟨mv', hap, habs', hsc'⟩ := (hF e.impl mv margs hsc hscs).1 v' hv2
+            obtain ⟨mv', hap, habs'⟩ := (hF e.impl mv margs).1 v' hv2
             subst habs'
-            obtain ⟨mv2, st2, hrun, h3, h4, h5, h6⟩ :=
-              (ihds mv' (if e.cancel then false else esc) st1 hsc' (hr.of_heap hh)).1 r hv
+            obtain ⟨mv2, st2, hrun, h3, h5, h6⟩ :=
+              (ihds mv' (if e.cancel then false else esc) st1 (hr.of_heap hh)).1 r hv
             simp only [hes, hap]
-            exact ⟨mv2, st2, hrun, h3, h4, by rw [h5, hh], by rw [h6, ho]⟩
+            exact ⟨mv2, st2, hrun, h3, by rw [h5, hh], by rw [h6, ho]⟩
           · rcases C01.bind_err herr with h | ⟨args, hv1, herr⟩
             · simp only [ha2 h]
-            · obtain ⟨margs, st1, hes, habs, hscs, hh, ho⟩ := ha1 args hv1
+            · obtain ⟨margs, st1, hes, habs, hh, ho⟩ := ha1 args hv1
               subst habs
               simp only [hes]
               rcases C01.bind_err herr with h | ⟨v', hv2, herr⟩
-              · simp only [(hF e.impl mv margs hsc hscs).2 h]
-              · obtain ⟨mv', hap, habs', hsc'⟩ := (hF e.impl mv margs hsc hscs).1 v' hv2
+              · simp only [(hF e.impl mv margs).2 h]
+              · obtain ⟨mv', hap, habs'⟩ := (hF e.impl mv margs).1 v' hv2
                 subst habs'
                 simp only [hap]
-                exact (ihds mv' (if e.cancel then false else esc) st1 hsc' (hr.of_heap hh)).2 herr
+                exact (ihds mv' (if e.cancel then false else esc) st1 (hr.of_heap hh)).2 herr
 
 /-! ### a {msg} rendered through a translation -/
 
 /-- the placeholder runs of a message against the specification's: same depths, same names, runs that agree -/
-inductive PhRel (coll : Bytes → Bool) (g : GEnv) (entry : Spec.Eval.Binds) :
+inductive PhRel (g : GEnv) (entry : Spec.Eval.Binds) :
     List (Nat × Bytes × Run) → List (Nat × Bytes × (Spec.Eval.Env → Spec.Eval.ROut)) → Prop where
-  | nil : PhRel coll g entry [] []
+  | nil : PhRel g entry [] []
   | cons {d : Nat} {n : Bytes} {run : Run} {f : Spec.Eval.Env → Spec.Eval.ROut} {l l'} :
       GoodRun run →
-      (∀ ctx st env, Rel coll g entry ctx st env → Own ctx st → ScopeOk ctx st → Agree coll g entry ctx st (run ctx st) (f env)) →
-      PhRel coll g entry l l' → PhRel coll g entry ((d, n, run) :: l) ((d, n, f) :: l')
+      (∀ ctx st env, Rel g entry ctx st env → Own ctx st → ScopeOk ctx st → Agree g entry ctx st (run ctx st) (f env)) →
+      PhRel g entry l l' → PhRel g entry ((d, n, run) :: l) ((d, n, f) :: l')
 
 omit hob hcall hreg hmsg hdir hcs in
-theorem PhRel.append {l1 l2 : List (Nat × Bytes × Run)} {m1 m2} (h1 : PhRel coll g entry l1 m1) (h2 : PhRel coll g entry l2 m2) :
-    PhRel coll g entry (l1 ++ l2) (m1 ++ m2) := by
+theorem PhRel.append {l1 l2 : List (Nat × Bytes × Run)} {m1 m2} (h1 : PhRel g entry l1 m1) (h2 : PhRel g entry l2 m2) :
+    PhRel g entry (l1 ++ l2) (m1 ++ m2) := by
   induction h1 with
   | nil => exact h2
   | cons hg ha _ ih => exact .cons hg ha ih
 
 omit hob hcall hreg hmsg hdir hcs in
-theorem PhRel.good {l : List (Nat × Bytes × Run)} {m} (h : PhRel coll g entry l m) : ∀ e ∈ l, GoodRun e.2.2 := by
+theorem PhRel.good {l : List (Nat × Bytes × Run)} {m} (h : PhRel g entry l m) : ∀ e ∈ l, GoodRun e.2.2 := by
   induction h with
   | nil => intro e he; cases he
   | cons hg _ _ ih =>
@@ -1036,21 +977,21 @@ theorem PhRel.good {l : List (Nat × Bytes × Run)} {m} (h : PhRel coll g entry 
     · exact ih e he
 
 /-- what `pickPh` and the specification's `pickPhS` hold: nothing on both sides, or runs that agree -/
-def PickRel (coll : Bytes → Bool) (g : GEnv) (entry : Spec.Eval.Binds) :
+def PickRel (g : GEnv) (entry : Spec.Eval.Binds) :
     Option (Nat × Run) → Option (Nat × (Spec.Eval.Env → Spec.Eval.ROut)) → Prop
   | none, none => True
   | some (d, run), some (d', f) => d = d' ∧ GoodRun run ∧
-      ∀ ctx st env, Rel coll g entry ctx st env → Own ctx st → ScopeOk ctx st → Agree coll g entry ctx st (run ctx st) (f env)
+      ∀ ctx st env, Rel g entry ctx st env → Own ctx st → ScopeOk ctx st → Agree g entry ctx st (run ctx st) (f env)
   | _, _ => False
 
 omit hob hcall hreg hmsg hdir hcs in
 /-- the same placeholder is found on both sides -/
-theorem pick_rel (name : Bytes) {l : List (Nat × Bytes × Run)} {m} (h : PhRel coll g entry l m) :
-    ∀ best sbest, PickRel coll g entry best sbest →
+theorem pick_rel (name : Bytes) {l : List (Nat × Bytes × Run)} {m} (h : PhRel g entry l m) :
+    ∀ best sbest, PickRel g entry best sbest →
       match pickPh name l best, Spec.Eval.pickPhS name m sbest with
       | none, none => True
       | some run, some f => GoodRun run ∧
-          ∀ ctx st env, Rel coll g entry ctx st env → Own ctx st → ScopeOk ctx st → Agree coll g entry ctx st (run ctx st) (f env)
+          ∀ ctx st env, Rel g entry ctx st env → Own ctx st → ScopeOk ctx st → Agree g entry ctx st (run ctx st) (f env)
       | _, _ => False := by
   induction h with
   | nil =>
@@ -1098,7 +1039,7 @@ theorem findPlural_eq : ∀ (body : MsgParts) (n : Bytes), findPlural body n = S
 
 omit hob hcall hreg hmsg hdir hcs in
 /-- the value of a plural variable is an expression of the fragment -/
-theorem findPlural_frag : ∀ (body : MsgParts), partsFrag coll body = true → ∀ n ve, findPlural body n = some ve → frag coll ve = true
+theorem findPlural_frag : ∀ (body : MsgParts), partsFrag body = true → ∀ n ve, findPlural body n = some ve → frag ve = true
   | .nil, _, _, _, h => by simp [findPlural] at h
   | .text _ _ r, hf, n, ve, h => by
     rw [findPlural] at h; simp only [partsFrag] at hf; exact findPlural_frag r hf n ve h
@@ -1113,9 +1054,9 @@ theorem findPlural_frag : ∀ (body : MsgParts), partsFrag coll body = true → 
 
 section
 variable (b : MsgBundle) (hgb : g.msgs = some b) (B : Spec.Eval.MsgSem) (hpl : ∀ n, B.pluralCase n = b.pluralCase n)
-  (body : MsgParts) (hbf : partsFrag coll body = true)
+  (body : MsgParts) (hbf : partsFrag body = true)
   (phs : List (Nat × Bytes × Run)) (sphs : List (Nat × Bytes × (Spec.Eval.Env → Spec.Eval.ROut)))
-  (hrel : PhRel coll g entry phs sphs)
+  (hrel : PhRel g entry phs sphs)
 include hgb hpl hbf hrel
 omit hob hcall hreg hmsg hdir hcs
 
@@ -1123,8 +1064,8 @@ mutual
 /-- `evalMsgParts` against the specification's `renderT`: raw text, the placeholder of that name, the plural
     form the bundle selects -/
 theorem mparts_agree : (ps : MParts) → ∀ (ctx : Scope) (st : St) (env : Spec.Eval.Env),
-    Rel coll g entry ctx st env → Own ctx st → ScopeOk ctx st →
-    Agree coll g entry ctx st (evalMParts g phs body ps ctx st) (Spec.Eval.renderT B sphs body (toT ps) env)
+    Rel g entry ctx st env → Own ctx st → ScopeOk ctx st →
+    Agree g entry ctx st (evalMParts g phs body ps ctx st) (Spec.Eval.renderT B sphs body (toT ps) env)
   | .nil, ctx, st, env, hr, _, _ => by
     rw [evalMParts, toT, Spec.Eval.renderT]; exact ⟨rfl, by simp, hr⟩
   | .cons (.raw t) rest, ctx, st, env, hr, hown, hok => by
@@ -1189,9 +1130,9 @@ theorem mparts_agree : (ps : MParts) → ∀ (ctx : Scope) (st : St) (env : Spec
       | unspec => simp [Spec.Eval.Out.bind, Agree]
       | error => simp [Spec.Eval.Out.bind, Agree, h2 hv]
       | val v =>
-        obtain ⟨mv, st1, he, habs, hsc, hheap, hout⟩ := h1 v hv
+        obtain ⟨mv, st1, he, habs, hheap, hout⟩ := h1 v hv
         subst habs
-        have hr1 : Rel coll g entry ctx st1 env := hr.of_heap hheap
+        have hr1 : Rel g entry ctx st1 env := hr.of_heap hheap
         have hok1 : ScopeOk ctx st1 := fun f hf' => by rw [hheap]; exact hok f hf'
         have hown1 : Own ctx st1 := hown.ext (evalIn_ext (fun _ => False) he)
         simp only [Spec.Eval.Out.bind, he]
@@ -1227,11 +1168,11 @@ theorem mparts_agree : (ps : MParts) → ∀ (ctx : Scope) (st : St) (env : Spec
         | bool _ => simp [absV, Agree]
         | float _ => simp [absV, Agree]
         | str _ => simp [absV, Agree]
-        | list _ _ => simp [Scalar] at hsc
-        | map _ _ => simp [Scalar] at hsc
+        | list _ _ => simp [absV, Agree]
+        | map _ _ => simp [absV, Agree]
 theorem mcases_agree : (cs : MCases) → ∀ (n : Nat) (ctx : Scope) (st : St) (env : Spec.Eval.Env),
-    Rel coll g entry ctx st env → Own ctx st → ScopeOk ctx st →
-    Agree coll g entry ctx st (evalMCases g phs body cs n ctx st) (Spec.Eval.renderTCases B sphs body (toTC cs) n env)
+    Rel g entry ctx st env → Own ctx st → ScopeOk ctx st →
+    Agree g entry ctx st (evalMCases g phs body cs n ctx st) (Spec.Eval.renderTCases B sphs body (toTC cs) n env)
   | .nil, n, ctx, st, env, _, _, _ => by rw [evalMCases, toTC, Spec.Eval.renderTCases]; simp [Agree]
   | .cons parts _, 0, ctx, st, env, hr, hown, hok => by
     rw [evalMCases, toTC, Spec.Eval.renderTCases]; exact mparts_agree parts ctx st env hr hown hok
@@ -1243,15 +1184,15 @@ end
 include hcall in
 /-- {foreach} / {for}, given the evaluation of its list (`hE`), its body (`hb`) and its {ifempty} block -/
 theorem forc_core (p0 : Nat) (var : Bytes) (E : Expr) (body : Block) (ifE : Option Block)
-    (ctx : Scope) (st : St) (env : Spec.Eval.Env) (hr : Rel coll g entry ctx st env) (hok : ScopeOk ctx st)
-    (hb : ∀ ctx' st' env', Rel coll g entry ctx' st' env' → Own ctx' st' → ScopeOk ctx' st' →
-        ∃ o : Spec.Eval.ROut, Agree coll g entry ctx' st' (execBody g esc call body ctx' st') o ∧
+    (ctx : Scope) (st : St) (env : Spec.Eval.Env) (hr : Rel g entry ctx st env) (hok : ScopeOk ctx st)
+    (hb : ∀ ctx' st' env', Rel g entry ctx' st' env' → Own ctx' st' → ScopeOk ctx' st' →
+        ∃ o : Spec.Eval.ROut, Agree g entry ctx' st' (execBody g esc call body ctx' st') o ∧
           Spec.Eval.renderBlock reg hasBundle esc entry scall dsem body env' = o.bind fun q => .val q.1)
-    (hemp : ∀ bE, ifE = some bE → ∀ st1, Rel coll g entry ctx st1 env → ScopeOk ctx st1 →
-        AgreeB coll g entry ctx st1 env (walkBlockOf (execBody g esc call bE) ctx st1)
+    (hemp : ∀ bE, ifE = some bE → ∀ st1, Rel g entry ctx st1 env → ScopeOk ctx st1 →
+        AgreeB g entry ctx st1 env (walkBlockOf (execBody g esc call bE) ctx st1)
           (Spec.Eval.renderBlock reg hasBundle esc entry scall dsem bE env))
-    (hE : ValSim coll g E ctx st env) :
-    Agree coll g entry ctx st (execCmd g esc call (.forc p0 var E body ifE) ctx st)
+    (hE : ValSim g E ctx st env) :
+    Agree g entry ctx st (execCmd g esc call (.forc p0 var E body ifE) ctx st)
       (Spec.Eval.renderCmd reg hasBundle esc entry scall dsem (.forc p0 var E body ifE) env) := by
   obtain ⟨h1, h2⟩ := hE
   rw [execCmd, Spec.Eval.renderCmd.eq_def]
@@ -1260,14 +1201,13 @@ theorem forc_core (p0 : Nat) (var : Bytes) (E : Expr) (body : Block) (ifE : Opti
   | unspec => simp [Spec.Eval.Out.bind, Agree]
   | error => simp [Spec.Eval.Out.bind, Agree, h2 hv]
   | val v =>
-    obtain ⟨mv, st1, he, hveq, hsh, hheap, hout⟩ := h1 v hv
+    obtain ⟨mv, st1, he, hveq, hheap, hout⟩ := h1 v hv
     subst hveq
-    have hr1 : Rel coll g entry ctx st1 env := hr.of_heap hheap
+    have hr1 : Rel g entry ctx st1 env := hr.of_heap hheap
     have hok1 : ScopeOk ctx st1 := fun f hf' => by rw [hheap]; exact hok f hf'
     simp only [Spec.Eval.Out.bind, he]
     cases mv with
     | list id mvs =>
-      have hsc : ∀ x ∈ mvs, Scalar x = true := by simpa [Shallow] using hsh
       simp only [absV]
       cases mvs with
       | nil =>
@@ -1287,7 +1227,7 @@ theorem forc_core (p0 : Nat) (var : Bytes) (E : Expr) (body : Block) (ifE : Opti
       | cons x rest =>
         simp only [List.isEmpty_cons, Bool.false_eq_true, if_false, absL]
         have hl := loop_agree g entry (execBody g esc call body) _ (execBody_good g esc call hcall _) hb var
-          (((x :: rest).length : Int) - 1) ((absV x :: absL rest).length - 1) (x :: rest) 0 ctx st1 env hr1 hok1 hsc
+          (((x :: rest).length : Int) - 1) ((absV x :: absL rest).length - 1) (x :: rest) 0 ctx st1 env hr1 hok1
         rw [absL] at hl
         cases hlv : Spec.Eval.loopSpec (Spec.Eval.renderBlock reg hasBundle esc entry scall dsem body) env var
             ((absV x :: absL rest).length - 1) (absV x :: absL rest) 0 with
@@ -1318,7 +1258,7 @@ def callRest (g : GEnv) (esc : Bool) (call : Registry.Tmpl → Run) (callee : Re
 
 omit hob hcall hreg hcs in
 theorem Agree.of_out {ctx : Scope} {st st0 : St} {r : R} {o : Spec.Eval.ROut} (h : st0.out = st.out)
-    (ha : Agree coll g entry ctx st0 r o) : Agree coll g entry ctx st r o := by
+    (ha : Agree g entry ctx st0 r o) : Agree g entry ctx st r o := by
   cases o with
   | unspec => trivial
   | error => exact ha
@@ -1332,13 +1272,13 @@ theorem call_core (callee : Registry.Tmpl) (hmem : callee ∈ reg) (ps : ParamLi
     (ctx : Scope) (st0 : St) (env : Spec.Eval.Env) (n : Nat) (sc : Scope) (B : Spec.Eval.Binds)
     (own0 : Own (⟨n, false⟩ :: sc) st0)
     (hn : n < st0.heap.length) (hsc0 : ∀ x ∈ sc, x.ref < st0.heap.length)
-    (hp : AgreeP coll (⟨n, false⟩ :: sc) st0 B (execParams g esc call ps (⟨n, false⟩ :: sc) ctx st0)
+    (hp : AgreeP (⟨n, false⟩ :: sc) st0 B (execParams g esc call ps (⟨n, false⟩ :: sc) ctx st0)
       (Spec.Eval.renderParams reg hasBundle esc entry scall dsem ps env))
     (hglob : ∀ k, match Frame.find g.globals k with
-      | some v => Spec.Eval.find env.globals k = some (absV v) ∧ Scalar v = true
+      | some v => Spec.Eval.find env.globals k = some (absV v)
       | none => Spec.Eval.find env.globals k = none)
-    (hrel : Rel coll g entry ctx (callRest g esc call callee ps (⟨n, false⟩ :: sc) ctx st0).st env) :
-    Agree coll g entry ctx st0 (callRest g esc call callee ps (⟨n, false⟩ :: sc) ctx st0)
+    (hrel : Rel g entry ctx (callRest g esc call callee ps (⟨n, false⟩ :: sc) ctx st0).st env) :
+    Agree g entry ctx st0 (callRest g esc call callee ps (⟨n, false⟩ :: sc) ctx st0)
       ((Spec.Eval.renderParams reg hasBundle esc entry scall dsem ps env).bind fun R =>
         (scall callee { entry := R ++ B, ij := env.ij, globals := env.globals }).bind fun out => .val (out, env)) := by
   have hpg := execParams_good g esc call hcall ps (⟨n, false⟩ :: sc) ctx st0 own0
@@ -1383,13 +1323,10 @@ theorem call_core (callee : Registry.Tmpl) (hmem : callee ∈ reg) (ps : ParamLi
       have hs2' : s2 = (push (⟨n, true⟩ :: sc) P).2 := by rw [hpe]
       rw [hc1, hs2', lookup_push (⟨n, true⟩ :: sc) P hsc k]
       simp [lookup]
-    have hrc : Rel coll g (R ++ B) cctx s2 { vars := R ++ B, loops := [], ij := env.ij, globals := env.globals } := by
-      refine ⟨⟨fun k _ => ?_, fun k hc => ?_, hglob⟩, fun k => ?_, ?_⟩
+    have hrc : Rel g (R ++ B) cctx s2 { vars := R ++ B, loops := [], ij := env.ij, globals := env.globals } := by
+      refine ⟨⟨fun k _ => ?_, hglob⟩, ?_⟩
       · show absV (lookup s2.heap cctx k) = _
-        rw [hlk k]; exact (hpf k).1
-      · show Scalar (lookup s2.heap cctx k) = true
-        rw [hlk k]; exact (hpf k).2.1 hc
-      · rw [hlk k]; exact (hpf k).2.2
+        rw [hlk k]; exact hpf k
       · -- the callee's entry data: its param frame over the passed frames
         refine ⟨⟨_, false⟩, (⟨n, true⟩ :: sc), (⟨n, true⟩ :: sc), hcctx, rfl, by simp [alldata], ?_, ?_, ?_⟩
         · intro x hx e
@@ -1416,9 +1353,9 @@ theorem call_core (callee : Registry.Tmpl) (hmem : callee ∈ reg) (ps : ParamLi
 
 include hob hcall hreg hmsg hdir hcs in
 mutual
-theorem cmd_agree : (c : Cmd) → cfrag coll c = true → ∀ (ctx : Scope) (st : St) (env : Spec.Eval.Env),
-    Rel coll g entry ctx st env → Own ctx st → ScopeOk ctx st →
-    Agree coll g entry ctx st (execCmd g esc call c ctx st) (Spec.Eval.renderCmd reg hasBundle esc entry scall dsem c env)
+theorem cmd_agree : (c : Cmd) → cfrag c = true → ∀ (ctx : Scope) (st : St) (env : Spec.Eval.Env),
+    Rel g entry ctx st env → Own ctx st → ScopeOk ctx st →
+    Agree g entry ctx st (execCmd g esc call c ctx st) (Spec.Eval.renderCmd reg hasBundle esc entry scall dsem c env)
   | .rawText _ t, _, ctx, st, env, hr, _, _ => by
     rw [execCmd, Spec.Eval.renderCmd]
     exact ⟨rfl, bufBytes_write st t, hr.of_heap rfl⟩
@@ -1434,7 +1371,7 @@ theorem cmd_agree : (c : Cmd) → cfrag coll c = true → ∀ (ctx : Scope) (st 
     rw [execCmd]
     unfold evalPrint
     refine Agree.of_atNode (p := Expr.pos arg) ?_
-    have hr0 : Rel coll g entry ctx (atNode st (Expr.pos arg)) env := hr.of_heap rfl
+    have hr0 : Rel g entry ctx (atNode st (Expr.pos arg)) env := hr.of_heap rfl
     clear hr
     generalize atNode st (Expr.pos arg) = st at hr0 ⊢
     have hr := hr0
@@ -1449,7 +1386,7 @@ theorem cmd_agree : (c : Cmd) → cfrag coll c = true → ∀ (ctx : Scope) (st 
         simp only [Spec.Eval.Out.bind, Agree]
         unfold evalPrintAt; simp [h2 hv]
       | val v =>
-        obtain ⟨mv, st1, he, habs, hsc, hheap, hout⟩ := h1 v hv
+        obtain ⟨mv, st1, he, habs, hheap, hout⟩ := h1 v hv
         subst habs
         simp only [Spec.Eval.Out.bind]
         by_cases hund : mv = .undefined
@@ -1458,7 +1395,7 @@ theorem cmd_agree : (c : Cmd) → cfrag coll c = true → ∀ (ctx : Scope) (st 
           exact evalPrintAt_undef he
         · have hnu : Spec.Eval.isUndef (absV mv) = false := by cases mv <;> simp_all [absV, Spec.Eval.isUndef]
           simp only [hnu, Bool.false_eq_true, if_false]
-          have hd := runDirectives_sim g entry dsem hdir dirs hfd mv esc st1 hsc (hr.of_heap hheap)
+          have hd := runDirectives_sim g entry dsem hdir dirs hfd mv esc st1 (hr.of_heap hheap)
           have hdl : dirs ++ obligDirs pos g.oblig = dirs := by rw [hob]; simp [obligDirs]
           cases hrd : Spec.Eval.runDirs (Spec.Eval.dirsOf dsem) env dirs (absV mv) esc with
           | unspec => simp [Agree]
@@ -1466,8 +1403,8 @@ theorem cmd_agree : (c : Cmd) → cfrag coll c = true → ∀ (ctx : Scope) (st 
             simp only [Agree]
             exact evalPrintAt_dirs_none he (by rw [hdl]; exact hd.2 hrd)
           | val r =>
-            obtain ⟨mv', st2, hrun, habs', hsc', hh2, ho2⟩ := hd.1 r hrd
-            obtain ⟨s1, s2⟩ := show_scalar mv' hsc'
+            obtain ⟨mv', st2, hrun, habs', hh2, ho2⟩ := hd.1 r hrd
+            obtain ⟨s1, s2⟩ := show_val mv'
             rw [habs'] at s1 s2
             simp only
             cases hs : Spec.Eval.showVal r.1 with
@@ -1492,8 +1429,8 @@ theorem cmd_agree : (c : Cmd) → cfrag coll c = true → ∀ (ctx : Scope) (st 
     | unspec => simp [Spec.Eval.Out.bind, Agree]
     | error => simp [Spec.Eval.Out.bind, Agree, h2 hv]
     | val v =>
-      obtain ⟨mv, st1, he, habs, hsc, hheap, hout⟩ := h1 v hv
-      obtain ⟨s1, s2⟩ := show_scalar mv hsc
+      obtain ⟨mv, st1, he, habs, hheap, hout⟩ := h1 v hv
+      obtain ⟨s1, s2⟩ := show_val mv
       rw [habs] at s1 s2
       simp only [Spec.Eval.Out.bind, he]
       cases hs : Spec.Eval.showVal v with
@@ -1531,8 +1468,8 @@ theorem cmd_agree : (c : Cmd) → cfrag coll c = true → ∀ (ctx : Scope) (st 
     | unspec => simp [Spec.Eval.Out.bind, Agree]
     | error => simp [Spec.Eval.Out.bind, Agree, h2 hv]
     | val v =>
-      obtain ⟨mv, st1, he, habs, hsc, hheap, hout⟩ := h1 v hv
-      have hr1 : Rel coll g entry ctx st1 env := hr.of_heap hheap
+      obtain ⟨mv, st1, he, habs, hheap, hout⟩ := h1 v hv
+      have hr1 : Rel g entry ctx st1 env := hr.of_heap hheap
       have hown1 : Own ctx st1 := hown.ext (Ext.of_heap_eq (W := fun _ => False) hheap (by
         have := evalIn_ext (fun _ => False) he; exact this.foreign))
       simp only [Spec.Eval.Out.bind, he]
@@ -1540,7 +1477,7 @@ theorem cmd_agree : (c : Cmd) → cfrag coll c = true → ∀ (ctx : Scope) (st 
       | none => exact absurd hs (set_ne_none hown1)
       | some st2 =>
         simp only [Agree]
-        refine ⟨trivial, ?_, by rw [← habs]; exact Rel.set g entry hr1 hown1 hs hsc⟩
+        refine ⟨trivial, ?_, by rw [← habs]; exact Rel.set g entry hr1 hown1 hs⟩
         have : st2.out = st1.out := by
           obtain ⟨f, r, c, hctx, _, _⟩ := hown1
           subst hctx
@@ -1568,18 +1505,18 @@ theorem cmd_agree : (c : Cmd) → cfrag coll c = true → ∀ (ctx : Scope) (st 
       have hbuf : RB.2 = out := by rw [fb]; simpa [bufBytes] using hbytes
       rw [hbuf]
       have hown2 : Own ctx RB.1.st := hown.ext hgood.ext
-      have hrel2 : Rel coll g entry ctx RB.1.st env := hrel.of_heap fh
+      have hrel2 : Rel g entry ctx RB.1.st env := hrel.of_heap fh
       cases hs : Eval.set ctx RB.1.st name (.str out) with
       | none => exact absurd hs (set_ne_none hown2)
       | some st2 =>
         simp only [Agree]
-        refine ⟨trivial, ?_, Rel.set g entry hrel2 hown2 hs rfl⟩
+        refine ⟨trivial, ?_, Rel.set g entry hrel2 hown2 hs⟩
         rw [Refine.set_out hs, fo]; simp
   | .msg _ id _ _ _ body, hf, ctx, st, env, hr, hown, hok => by
     simp only [cfrag] at hf
     rw [execCmd, Spec.Eval.renderCmd]
     -- the source path: the message is one block, a fresh frame around its parts
-    have hsrc : Agree coll g entry ctx st (walkBlockOf (walkMsgBody g esc call body) ctx st)
+    have hsrc : Agree g entry ctx st (walkBlockOf (walkMsgBody g esc call body) ctx st)
         ((Spec.Eval.renderParts reg hasBundle esc entry scall dsem body env).bind fun r => .val (r.1, env)) := by
       have hb := block_agree g entry (walkMsgBody g esc call body)
         (fun env' => (Spec.Eval.renderParts reg hasBundle esc entry scall dsem body env').bind fun r => .val r.1)
@@ -1648,11 +1585,11 @@ theorem cmd_agree : (c : Cmd) → cfrag coll c = true → ∀ (ctx : Scope) (st 
     | unspec => simp [Spec.Eval.Out.bind, Agree]
     | error => simp [Spec.Eval.Out.bind, Agree, h2 hv]
     | val v =>
-      obtain ⟨mv, st1, he, habs, hsc, hheap, hout⟩ := h1 v hv
-      have hr1 : Rel coll g entry ctx st1 env := hr.of_heap hheap
+      obtain ⟨mv, st1, he, habs, hheap, hout⟩ := h1 v hv
+      have hr1 : Rel g entry ctx st1 env := hr.of_heap hheap
       have hok1 : ScopeOk ctx st1 := fun f hf' => by rw [hheap]; exact hok f hf'
       have hown1 : Own ctx st1 := hown.ext (evalIn_ext (fun _ => False) he)
-      have hc := cases_agree cases mv hsc hf.2 none none (Or.inl ⟨rfl, rfl⟩) ctx st1 env hr1 hown1 hok1
+      have hc := cases_agree cases mv hf.2 none none (Or.inl ⟨rfl, rfl⟩) ctx st1 env hr1 hown1 hok1
       rw [habs] at hc
       have hrc : Spec.Eval.renderCases reg hasBundle esc entry scall dsem cases v env =
           (Spec.Eval.renderMatch reg hasBundle esc entry scall dsem cases v env).bind
@@ -1678,7 +1615,7 @@ theorem cmd_agree : (c : Cmd) → cfrag coll c = true → ∀ (ctx : Scope) (st 
     simp only [cfrag, Bool.and_eq_true] at hf
     obtain ⟨hD1, hD2⟩ := dataFrag_sim g entry hr d hf.1
     have hgood := C02.block_cmd_scoped g esc call hcall (.call p name false (some d) ps) (by intros; simp) (by intros; simp) ctx st hown
-    have hrel : Rel coll g entry ctx (execCmd g esc call (.call p name false (some d) ps) ctx st).st env :=
+    have hrel : Rel g entry ctx (execCmd g esc call (.call p name false (some d) ps) ctx st).st env :=
       hr.of_ext hgood.ext hok (fun _ _ h => h)
     rw [execCmd] at hrel ⊢
     rw [Spec.Eval.renderCmd, hreg]
@@ -1695,7 +1632,7 @@ theorem cmd_agree : (c : Cmd) → cfrag coll c = true → ∀ (ctx : Scope) (st 
         obtain ⟨mv, st1, he, hms, hheap, hout⟩ := hD1 v hv
         cases mv with
         | map id kvs =>
-          obtain ⟨B, rfl, hfind, hscal⟩ := hms
+          obtain ⟨B, rfl, hfind⟩ := hms
           have hcd : callData g false (some d) ctx st = some (⟨st1.heap.length + 1, false⟩ :: [⟨st1.heap.length, false⟩],
               { st1 with heap := st1.heap ++ [⟨kvs, true⟩, ⟨[], false⟩] }) := by
             simp [callData, he, newScope, push]
@@ -1704,28 +1641,20 @@ theorem cmd_agree : (c : Cmd) → cfrag coll c = true → ∀ (ctx : Scope) (st 
           have own0 : Own (⟨st1.heap.length + 1, false⟩ :: [⟨st1.heap.length, false⟩])
               { st1 with heap := st1.heap ++ [⟨kvs, true⟩, ⟨[], false⟩] } :=
             ⟨⟨st1.heap.length + 1, false⟩, [⟨st1.heap.length, false⟩], ⟨[], false⟩, rfl, by simp, rfl⟩
-          have hfr0 : FrameRel coll ({ st1 with heap := st1.heap ++ [⟨kvs, true⟩, ⟨[], false⟩] } : St).heap
+          have hfr0 : FrameRel ({ st1 with heap := st1.heap ++ [⟨kvs, true⟩, ⟨[], false⟩] } : St).heap
               (⟨st1.heap.length + 1, false⟩ :: [⟨st1.heap.length, false⟩]) B := by
             intro k
             have hl1 : lookup (st1.heap ++ [⟨kvs, true⟩, ⟨[], false⟩]) (⟨st1.heap.length + 1, false⟩ :: [⟨st1.heap.length, false⟩]) k =
                 (Frame.find kvs k).getD .undefined := by
               simp [lookup, heapGet, Frame.find]
               cases Frame.find kvs k <;> rfl
-            show absV (lookup (st1.heap ++ [⟨kvs, true⟩, ⟨[], false⟩]) _ k) = _ ∧ OkAt coll k (lookup (st1.heap ++ [⟨kvs, true⟩, ⟨[], false⟩]) _ k)
+            show absV (lookup (st1.heap ++ [⟨kvs, true⟩, ⟨[], false⟩]) _ k) = _
             rw [hl1, hfind k]
-            cases hfk : Frame.find kvs k with
-            | none => simp [absV, OkAt, Scalar, Shallow]
-            | some x =>
-              have hx : Scalar x = true := by
-                have hmem : (k, x) ∈ kvs ∨ ∃ k', (k', x) ∈ kvs := Or.inr (frame_find_mem kvs k x hfk)
-                rcases hmem with h | ⟨k', h⟩
-                · exact hscal _ h
-                · exact hscal _ h
-              exact ⟨rfl, OkAt.of_scalar hx⟩
+            cases hfk : Frame.find kvs k <;> simp [absV]
           have hok1 : ScopeOk ctx st1 := fun f hf' => by rw [hheap]; exact hok f hf'
           have hne : ∀ f ∈ ctx, f.ref ≠ top (⟨st1.heap.length + 1, false⟩ :: [⟨st1.heap.length, false⟩]) := by
             intro f hf' e; have := hok1 f hf'; simp [top] at e; omega
-          have hr0 : Rel coll g entry ctx { st1 with heap := st1.heap ++ [⟨kvs, true⟩, ⟨[], false⟩] } env :=
+          have hr0 : Rel g entry ctx { st1 with heap := st1.heap ++ [⟨kvs, true⟩, ⟨[], false⟩] } env :=
             (hr.of_heap hheap).of_ext (Ext.append st1 _) hok1 (fun _ _ h => h)
           have hok0 : ScopeOk ctx { st1 with heap := st1.heap ++ [⟨kvs, true⟩, ⟨[], false⟩] } := fun f hf' => by
             have := hok1 f hf'; simp; omega
@@ -1746,7 +1675,7 @@ theorem cmd_agree : (c : Cmd) → cfrag coll c = true → ∀ (ctx : Scope) (st 
     simp only [cfrag] at hf
     -- after the call the caller's bindings are what they were (Props/C02 block_cmd_scoped)
     have hgood := C02.block_cmd_scoped g esc call hcall (.call p name false none ps) (by intros; simp) (by intros; simp) ctx st hown
-    have hrel : Rel coll g entry ctx (execCmd g esc call (.call p name false none ps) ctx st).st env :=
+    have hrel : Rel g entry ctx (execCmd g esc call (.call p name false none ps) ctx st).st env :=
       hr.of_ext hgood.ext hok (fun _ _ h => h)
     rw [execCmd] at hrel ⊢
     rw [Spec.Eval.renderCmd, hreg]
@@ -1761,12 +1690,12 @@ theorem cmd_agree : (c : Cmd) → cfrag coll c = true → ∀ (ctx : Scope) (st 
       -- the callee's param frame: a fresh empty map
       have own0 : Own [⟨st.heap.length, false⟩] { st with heap := st.heap ++ [⟨[], false⟩] } :=
         ⟨⟨st.heap.length, false⟩, [], ⟨[], false⟩, rfl, by simp, rfl⟩
-      have hfr0 : FrameRel coll ({ st with heap := st.heap ++ [⟨[], false⟩] } : St).heap [⟨st.heap.length, false⟩] [] := by
+      have hfr0 : FrameRel ({ st with heap := st.heap ++ [⟨[], false⟩] } : St).heap [⟨st.heap.length, false⟩] [] := by
         intro k
-        simp [lookup, heapGet, Frame.find, Spec.Eval.find, absV, Scalar, OkAt, Shallow]
+        simp [lookup, heapGet, Frame.find, Spec.Eval.find, absV]
       have hne : ∀ f ∈ ctx, f.ref ≠ top [⟨st.heap.length, false⟩] := by
         intro f hf' e; have := hok f hf'; simp [top] at e; omega
-      have hr0 : Rel coll g entry ctx { st with heap := st.heap ++ [⟨[], false⟩] } env :=
+      have hr0 : Rel g entry ctx { st with heap := st.heap ++ [⟨[], false⟩] } env :=
         hr.of_ext (Ext.append st [⟨[], false⟩]) hok (fun _ _ h => h)
       have hok0 : ScopeOk ctx { st with heap := st.heap ++ [⟨[], false⟩] } := fun f hf' => by
         have := hok f hf'; simp; omega
@@ -1779,7 +1708,7 @@ theorem cmd_agree : (c : Cmd) → cfrag coll c = true → ∀ (ctx : Scope) (st 
     obtain ⟨f0, r0, sc, hc0, hf0, ha0, hne0, hlt0, hfr0e⟩ := hr.ent
     have halld : alldata ctx = some sc := by rw [hc0, alldata, hf0]; simpa using ha0
     have hgood := C02.block_cmd_scoped g esc call hcall (.call p name true none ps) (by intros; simp) (by intros; simp) ctx st hown
-    have hrel : Rel coll g entry ctx (execCmd g esc call (.call p name true none ps) ctx st).st env :=
+    have hrel : Rel g entry ctx (execCmd g esc call (.call p name true none ps) ctx st).st env :=
       hr.of_ext hgood.ext hok (fun _ _ h => h)
     rw [execCmd] at hrel ⊢
     rw [Spec.Eval.renderCmd, hreg]
@@ -1796,15 +1725,15 @@ theorem cmd_agree : (c : Cmd) → cfrag coll c = true → ∀ (ctx : Scope) (st 
       -- the callee's param frame: a fresh empty map over the frames `alldata` passes
       have own0 : Own (⟨st.heap.length, false⟩ :: sc) { st with heap := st.heap ++ [⟨[], false⟩] } :=
         ⟨⟨st.heap.length, false⟩, sc, ⟨[], false⟩, rfl, by simp, rfl⟩
-      have hfr0 : FrameRel coll ({ st with heap := st.heap ++ [⟨[], false⟩] } : St).heap (⟨st.heap.length, false⟩ :: sc) entry :=
+      have hfr0 : FrameRel ({ st with heap := st.heap ++ [⟨[], false⟩] } : St).heap (⟨st.heap.length, false⟩ :: sc) entry :=
         fun k => by
           have hl' : lookup (st.heap ++ [⟨[], false⟩]) (⟨st.heap.length, false⟩ :: sc) k = lookup st.heap sc k :=
             lookup_push sc st (fun x hx => hlt0 x hx) k
-          show absV (lookup (st.heap ++ [⟨[], false⟩]) (⟨st.heap.length, false⟩ :: sc) k) = _ ∧ OkAt coll k (lookup (st.heap ++ [⟨[], false⟩]) (⟨st.heap.length, false⟩ :: sc) k)
+          show absV (lookup (st.heap ++ [⟨[], false⟩]) (⟨st.heap.length, false⟩ :: sc) k) = _
           rw [hl']; exact hfr0e k
       have hne : ∀ f ∈ ctx, f.ref ≠ top (⟨st.heap.length, false⟩ :: sc) := by
         intro f hf' e; have := hok f hf'; simp [top] at e; omega
-      have hr0 : Rel coll g entry ctx { st with heap := st.heap ++ [⟨[], false⟩] } env :=
+      have hr0 : Rel g entry ctx { st with heap := st.heap ++ [⟨[], false⟩] } env :=
         hr.of_ext (Ext.append st [⟨[], false⟩]) hok (fun _ _ h => h)
       have hok0 : ScopeOk ctx { st with heap := st.heap ++ [⟨[], false⟩] } := fun f hf' => by
         have := hok f hf'; simp; omega
@@ -1820,9 +1749,9 @@ theorem cmd_agree : (c : Cmd) → cfrag coll c = true → ∀ (ctx : Scope) (st 
   | .template .., hf, _, _, _, _, _, _ => by simp [cfrag] at hf
   | .soyDoc .., hf, _, _, _, _, _, _ => by simp [cfrag] at hf
 /-- a block: `walkBlock` against the specification's `renderBlock` -/
-theorem body_agree : (b : Block) → bfrag coll b = true → ∀ (ctx : Scope) (st : St) (env : Spec.Eval.Env),
-    Rel coll g entry ctx st env → ScopeOk ctx st →
-    AgreeB coll g entry ctx st env (walkBlockOf (execBody g esc call b) ctx st) (Spec.Eval.renderBlock reg hasBundle esc entry scall dsem b env)
+theorem body_agree : (b : Block) → bfrag b = true → ∀ (ctx : Scope) (st : St) (env : Spec.Eval.Env),
+    Rel g entry ctx st env → ScopeOk ctx st →
+    AgreeB g entry ctx st env (walkBlockOf (execBody g esc call b) ctx st) (Spec.Eval.renderBlock reg hasBundle esc entry scall dsem b env)
   | .mk _ cs, hf, ctx, st, env, hr, hok => by
     simp only [bfrag] at hf
     refine block_agree g entry (execBody g esc call (.mk _ cs)) _ (execBody_good g esc call hcall _) ?_ ctx st env hr hok
@@ -1830,16 +1759,16 @@ theorem body_agree : (b : Block) → bfrag coll b = true → ∀ (ctx : Scope) (
     refine ⟨cmdsE esc reg hasBundle entry scall dsem cs env', ?_, ?_⟩
     · rw [execBody]; exact Agree.of_atNode (cmds_agree cs hf ctx' _ env' (hr'.of_heap rfl) (hown'.atNode _) hok')
     · rw [Spec.Eval.renderBlock]; exact renderCmds_eq esc reg hasBundle entry scall dsem cs env'
-theorem cmds_agree : (cs : CmdList) → csFrag coll cs = true → ∀ (ctx : Scope) (st : St) (env : Spec.Eval.Env),
-    Rel coll g entry ctx st env → Own ctx st → ScopeOk ctx st →
-    Agree coll g entry ctx st (execCmds g esc call cs ctx st) (cmdsE esc reg hasBundle entry scall dsem cs env)
+theorem cmds_agree : (cs : CmdList) → csFrag cs = true → ∀ (ctx : Scope) (st : St) (env : Spec.Eval.Env),
+    Rel g entry ctx st env → Own ctx st → ScopeOk ctx st →
+    Agree g entry ctx st (execCmds g esc call cs ctx st) (cmdsE esc reg hasBundle entry scall dsem cs env)
   | .nil, _, ctx, st, env, hr, _, _ => by
     rw [execCmds, cmdsE]; exact ⟨rfl, by simp, hr⟩
   | .cons c rest, hf, ctx, st, env, hr, hown, hok => by
     simp only [csFrag, Bool.and_eq_true] at hf
     rw [execCmds]
     refine Agree.of_atNode (p := cmdPos c) ?_
-    have hr0 : Rel coll g entry ctx (atNode st (cmdPos c)) env := hr.of_heap rfl
+    have hr0 : Rel g entry ctx (atNode st (cmdPos c)) env := hr.of_heap rfl
     have hown0 : Own ctx (atNode st (cmdPos c)) := hown.atNode _
     have hok0 : ScopeOk ctx (atNode st (cmdPos c)) := hok
     clear hr hown hok
@@ -1866,23 +1795,23 @@ theorem cmds_agree : (cs : CmdList) → csFrag coll cs = true → ∀ (ctx : Sco
         rw [hv2] at h2
         simp only [Agree] at h2 ⊢
         exact ⟨h2.1, by rw [h2.2.1, hbytes]; simp, h2.2.2⟩
-theorem cases_agree : (cs : CaseList) → (sv : Value) → Scalar sv = true → casesFrag coll cs = true →
-    ∀ (dflt : Option Run) (sd : Option (Spec.Eval.Env → Out Bytes)), DfltRel coll g entry dflt sd →
-    ∀ (ctx : Scope) (st : St) (env : Spec.Eval.Env), Rel coll g entry ctx st env → Own ctx st → ScopeOk ctx st →
-    AgreeB coll g entry ctx st env (execCases g esc call cs dflt sv ctx st)
+theorem cases_agree : (cs : CaseList) → (sv : Value) → casesFrag cs = true →
+    ∀ (dflt : Option Run) (sd : Option (Spec.Eval.Env → Out Bytes)), DfltRel g entry dflt sd →
+    ∀ (ctx : Scope) (st : St) (env : Spec.Eval.Env), Rel g entry ctx st env → Own ctx st → ScopeOk ctx st →
+    AgreeB g entry ctx st env (execCases g esc call cs dflt sv ctx st)
       ((Spec.Eval.renderMatch reg hasBundle esc entry scall dsem cs (absV sv) env).bind
         (specRest sd (Spec.Eval.renderDefault reg hasBundle esc entry scall dsem cs env) env))
-  | .nil, _, _, _, dflt, sd, hd, ctx, st, env, hr, hown, hok => by
+  | .nil, _, _, dflt, sd, hd, ctx, st, env, hr, hown, hok => by
     rw [execCases, Spec.Eval.renderMatch, Spec.Eval.renderDefault]
     simp only [Spec.Eval.Out.bind]
     rcases hd with ⟨rfl, rfl⟩ | ⟨d, s, rfl, rfl, hds⟩
     · exact ⟨rfl, by simp [runDefault], hr⟩
     · exact hds ctx st env hr hown hok
-  | .cons cp values body rest, sv, hsv, hf, dflt, sd, hd, ctx, st, env, hr, hown, hok => by
+  | .cons cp values body rest, sv, hf, dflt, sd, hd, ctx, st, env, hr, hown, hok => by
     simp only [casesFrag, Bool.and_eq_true] at hf
-    obtain ⟨m1, m2⟩ := matchCase_sim g entry sv hsv values st hr hf.1.1
+    obtain ⟨m1, m2⟩ := matchCase_sim g entry sv values st hr hf.1.1
     rw [execCases, Spec.Eval.renderMatch]
-    have conv : ∀ {st1 : St} {r : R} {o : Out Bytes}, st1.out = st.out → AgreeB coll g entry ctx st1 env r o → AgreeB coll g entry ctx st env r o := by
+    have conv : ∀ {st1 : St} {r : R} {o : Out Bytes}, st1.out = st.out → AgreeB g entry ctx st1 env r o → AgreeB g entry ctx st env r o := by
       intro st1 r o ho h
       cases o with
       | unspec => trivial
@@ -1893,7 +1822,7 @@ theorem cases_agree : (cs : CaseList) → (sv : Value) → Scalar sv = true → 
     | error => simp [Spec.Eval.Out.bind, AgreeB, m2 hm]
     | val b =>
       obtain ⟨st1, hmc, hh, ho⟩ := m1 b hm
-      have hr1 : Rel coll g entry ctx st1 env := hr.of_heap hh
+      have hr1 : Rel g entry ctx st1 env := hr.of_heap hh
       have hok1 : ScopeOk ctx st1 := fun f hf' => by rw [hh]; exact hok f hf'
       have hown1 : Own ctx st1 := hown.ext (Ext.of_heap_eq (W := fun _ => False) hh (matchCase_ext (fun _ => False) _ _ _ _ hmc).foreign)
       simp only [Spec.Eval.Out.bind, hmc]
@@ -1907,15 +1836,15 @@ theorem cases_agree : (cs : CaseList) → (sv : Value) → Scalar sv = true → 
         | val out => rw [hv] at hb; simpa [AgreeB, specRest] using hb
       | false =>
         simp only [Bool.false_eq_true, if_false]
-        have hbody : ∀ ctx' st' env', Rel coll g entry ctx' st' env' → Own ctx' st' → ScopeOk ctx' st' →
-            AgreeB coll g entry ctx' st' env' (walkBlockOf (execBody g esc call body) ctx' st')
+        have hbody : ∀ ctx' st' env', Rel g entry ctx' st' env' → Own ctx' st' → ScopeOk ctx' st' →
+            AgreeB g entry ctx' st' env' (walkBlockOf (execBody g esc call body) ctx' st')
               (Spec.Eval.renderBlock reg hasBundle esc entry scall dsem body env') :=
           fun ctx' st' env' hr' _ hok' => body_agree body hf.1.2 ctx' st' env' hr' hok'
         rcases hd with ⟨rfl, rfl⟩ | ⟨d, s, rfl, rfl, hds⟩
         · cases values with
           | nil =>
             -- the first {default}: remembered on both sides
-            have ih := cases_agree rest sv hsv hf.2 (some (walkBlockOf (execBody g esc call body)))
+            have ih := cases_agree rest sv hf.2 (some (walkBlockOf (execBody g esc call body)))
               (some (Spec.Eval.renderBlock reg hasBundle esc entry scall dsem body))
               (Or.inr ⟨_, _, rfl, rfl, hbody⟩) ctx st1 env hr1 hown1 hok1
             have e : specRest (some (Spec.Eval.renderBlock reg hasBundle esc entry scall dsem body))
@@ -1925,13 +1854,13 @@ theorem cases_agree : (cs : CaseList) → (sv : Value) → Scalar sv = true → 
             rw [← e]
             exact conv ho ih
           | cons e0 es =>
-            have ih := cases_agree rest sv hsv hf.2 none none (Or.inl ⟨rfl, rfl⟩) ctx st1 env hr1 hown1 hok1
+            have ih := cases_agree rest sv hf.2 none none (Or.inl ⟨rfl, rfl⟩) ctx st1 env hr1 hown1 hok1
             have e : Spec.Eval.renderDefault reg hasBundle esc entry scall dsem (.cons cp (e0 :: es) body rest) env =
                 Spec.Eval.renderDefault reg hasBundle esc entry scall dsem rest env := by
               rw [Spec.Eval.renderDefault]; simp
             rw [e]
             exact conv ho ih
-        · have ih := cases_agree rest sv hsv hf.2 (some d) (some s) (Or.inr ⟨d, s, rfl, rfl, hds⟩) ctx st1 env hr1 hown1 hok1
+        · have ih := cases_agree rest sv hf.2 (some d) (some s) (Or.inr ⟨d, s, rfl, rfl, hds⟩) ctx st1 env hr1 hown1 hok1
           have e : specRest (some s) (Spec.Eval.renderDefault reg hasBundle esc entry scall dsem rest env) env =
               specRest (some s) (Spec.Eval.renderDefault reg hasBundle esc entry scall dsem (.cons cp values body rest) env) env := by
             funext m; cases m <;> rfl
@@ -1940,9 +1869,9 @@ theorem cases_agree : (cs : CaseList) → (sv : Value) → Scalar sv = true → 
             simp [pickDefault]
           rw [hp]
           exact conv ho ih
-theorem conds_agree : (cs : CondList) → condsFrag coll cs = true → ∀ (ctx : Scope) (st : St) (env : Spec.Eval.Env),
-    Rel coll g entry ctx st env → Own ctx st → ScopeOk ctx st →
-    AgreeB coll g entry ctx st env (execConds g esc call cs ctx st) (Spec.Eval.renderConds reg hasBundle esc entry scall dsem cs env)
+theorem conds_agree : (cs : CondList) → condsFrag cs = true → ∀ (ctx : Scope) (st : St) (env : Spec.Eval.Env),
+    Rel g entry ctx st env → Own ctx st → ScopeOk ctx st →
+    AgreeB g entry ctx st env (execConds g esc call cs ctx st) (Spec.Eval.renderConds reg hasBundle esc entry scall dsem cs env)
   | .nil, _, ctx, st, env, hr, _, _ => by
     rw [execConds, Spec.Eval.renderConds]; exact ⟨rfl, by simp, hr⟩
   | .cons _ none body _, hf, ctx, st, env, hr, _, hok => by
@@ -1957,12 +1886,12 @@ theorem conds_agree : (cs : CondList) → condsFrag coll cs = true → ∀ (ctx 
     | unspec => simp [Spec.Eval.Out.bind, AgreeB]
     | error => simp [Spec.Eval.Out.bind, AgreeB, h2 hv]
     | val v =>
-      obtain ⟨mv, st1, he, habs, hsc, hheap, hout⟩ := h1 v hv
-      have hr1 : Rel coll g entry ctx st1 env := hr.of_heap hheap
+      obtain ⟨mv, st1, he, habs, hheap, hout⟩ := h1 v hv
+      have hr1 : Rel g entry ctx st1 env := hr.of_heap hheap
       have hok1 : ScopeOk ctx st1 := fun f hf' => by rw [hheap]; exact hok f hf'
       have hown1 : Own ctx st1 := hown.ext (evalIn_ext (fun _ => False) he)
-      simp only [Spec.Eval.Out.bind, he, ← habs, truthy_abs mv hsc]
-      have conv : ∀ {r : R} {o : Out Bytes}, AgreeB coll g entry ctx st1 env r o → AgreeB coll g entry ctx st env r o := by
+      simp only [Spec.Eval.Out.bind, he, ← habs, truthy_abs mv]
+      have conv : ∀ {r : R} {o : Out Bytes}, AgreeB g entry ctx st1 env r o → AgreeB g entry ctx st env r o := by
         intro r o h
         cases o with
         | unspec => trivial
@@ -1974,10 +1903,10 @@ theorem conds_agree : (cs : CondList) → condsFrag coll cs = true → ∀ (ctx 
       · simp only [if_true]
         exact conv (body_agree body hf.1.2 ctx st1 env hr1 hok1)
 /-- the params of a call: evaluated / rendered in the caller's environment, bound in the callee's param frame -/
-theorem params_agree : (ps : ParamList) → paramsFrag coll ps = true →
+theorem params_agree : (ps : ParamList) → paramsFrag ps = true →
     ∀ (cd ctx : Scope) (st : St) (env : Spec.Eval.Env) (B0 : Spec.Eval.Binds),
-    Rel coll g entry ctx st env → Own ctx st → Own cd st → ScopeOk cd st → FrameRel coll st.heap cd B0 → (∀ f ∈ ctx, f.ref ≠ top cd) → ScopeOk ctx st →
-    AgreeP coll cd st B0 (execParams g esc call ps cd ctx st) (Spec.Eval.renderParams reg hasBundle esc entry scall dsem ps env)
+    Rel g entry ctx st env → Own ctx st → Own cd st → ScopeOk cd st → FrameRel st.heap cd B0 → (∀ f ∈ ctx, f.ref ≠ top cd) → ScopeOk ctx st →
+    AgreeP cd st B0 (execParams g esc call ps cd ctx st) (Spec.Eval.renderParams reg hasBundle esc entry scall dsem ps env)
   | .nil, _, cd, ctx, st, env, B0, _, _, _, _, hfr, _, _ => by
     rw [Spec.Eval.renderParams, execParams]
     exact ⟨rfl, by simpa using hfr, rfl⟩
@@ -1989,7 +1918,7 @@ theorem params_agree : (ps : ParamList) → paramsFrag coll ps = true →
     | unspec => simp [Spec.Eval.Out.bind, AgreeP]
     | error => simp [Spec.Eval.Out.bind, AgreeP, h2 hv]
     | val v =>
-      obtain ⟨mv, st1, he, habs, hsc, hheap, hout⟩ := h1 v hv
+      obtain ⟨mv, st1, he, habs, hheap, hout⟩ := h1 v hv
       have e1 : Ext (fun _ => False) st st1 := evalIn_ext _ he
       have own1 := owncd.ext e1
       simp only [Spec.Eval.Out.bind, he]
@@ -1999,15 +1928,15 @@ theorem params_agree : (ps : ParamList) → paramsFrag coll ps = true →
         simp only
         have e2 := set_ext own1 hs
         have hok1 : ScopeOk ctx st1 := fun f hf' => by rw [hheap]; exact hok f hf'
-        have hr2 : Rel coll g entry ctx st2 env :=
+        have hr2 : Rel g entry ctx st2 env :=
           (hr.of_heap hheap).of_ext e2 hok1 (fun f hf' h => hne f hf' h)
-        have hfr2 : FrameRel coll st2.heap cd ((key, v) :: B0) := by
+        have hfr2 : FrameRel st2.heap cd ((key, v) :: B0) := by
           intro k
           rw [lookup_set own1 hs k, find_cons]
           have := hfr k
           rw [← hheap] at this
           split
-          · exact ⟨by rw [habs]; rfl, OkAt.of_scalar hsc⟩
+          · rw [habs]; rfl
           · exact this
         have hok2 : ScopeOk ctx st2 := fun f hf' => Nat.lt_of_lt_of_le (hok1 f hf') e2.len
         have hcd2 : ScopeOk cd st2 := fun f hf' => Nat.lt_of_lt_of_le (by rw [hheap]; exact hcd f hf') e2.len
@@ -2043,7 +1972,7 @@ theorem params_agree : (ps : ParamList) → paramsFrag coll ps = true →
       have e1 : Ext (fun _ => False) st RB.1.st := hgood.ext
       generalize hS1 : RB.1.st = st1 at *
       have hout1 : st1.out = st.out := fo
-      have hr1 : Rel coll g entry ctx st1 env := hrel.of_heap fh
+      have hr1 : Rel g entry ctx st1 env := hrel.of_heap fh
       have own1 : Own cd st1 := owncd.ext e1
       have hown1 : Own ctx st1 := hown.ext e1
       cases hs : Eval.set cd st1 key (.str out) with
@@ -2053,13 +1982,13 @@ theorem params_agree : (ps : ParamList) → paramsFrag coll ps = true →
         have e2 := set_ext own1 hs
         have hok1 : ScopeOk ctx st1 := fun f hf' => Nat.lt_of_lt_of_le (hok f hf') e1.len
         have hcd1 : ScopeOk cd st1 := fun f hf' => Nat.lt_of_lt_of_le (hcd f hf') e1.len
-        have hr2 : Rel coll g entry ctx st2 env := hr1.of_ext e2 hok1 (fun f hf' h => hne f hf' h)
-        have hfr1 : FrameRel coll st1.heap cd B0 := hfr.of_lookup (lookup_ext_W e1 cd hcd (fun _ _ h => h))
-        have hfr2 : FrameRel coll st2.heap cd ((key, .str out) :: B0) := by
+        have hr2 : Rel g entry ctx st2 env := hr1.of_ext e2 hok1 (fun f hf' h => hne f hf' h)
+        have hfr1 : FrameRel st1.heap cd B0 := hfr.of_lookup (lookup_ext_W e1 cd hcd (fun _ _ h => h))
+        have hfr2 : FrameRel st2.heap cd ((key, .str out) :: B0) := by
           intro k
           rw [lookup_set own1 hs k, find_cons]
           split
-          · exact ⟨rfl, OkAt.of_scalar rfl⟩
+          · rfl
           · exact hfr1 k
         have hok2 : ScopeOk ctx st2 := fun f hf' => Nat.lt_of_lt_of_le (hok1 f hf') e2.len
         have hcd2 : ScopeOk cd st2 := fun f hf' => Nat.lt_of_lt_of_le (hcd1 f hf') e2.len
@@ -2074,9 +2003,9 @@ theorem params_agree : (ps : ParamList) → paramsFrag coll ps = true →
           have : (R ++ [(key, .str out)]) ++ B0 = R ++ (key, .str out) :: B0 := by simp
           rw [this]; exact ih.2.1
 /-- the parts of a {msg} without a bundle: walked in order -/
-theorem parts_agree : (ps : MsgParts) → partsFrag coll ps = true → ∀ (ctx : Scope) (st : St) (env : Spec.Eval.Env),
-    Rel coll g entry ctx st env → Own ctx st → ScopeOk ctx st →
-    Agree coll g entry ctx st (walkMsgBody g esc call ps ctx st) (Spec.Eval.renderParts reg hasBundle esc entry scall dsem ps env)
+theorem parts_agree : (ps : MsgParts) → partsFrag ps = true → ∀ (ctx : Scope) (st : St) (env : Spec.Eval.Env),
+    Rel g entry ctx st env → Own ctx st → ScopeOk ctx st →
+    Agree g entry ctx st (walkMsgBody g esc call ps ctx st) (Spec.Eval.renderParts reg hasBundle esc entry scall dsem ps env)
   | .nil, _, ctx, st, env, hr, _, _ => by
     rw [walkMsgBody, Spec.Eval.renderParts]; exact ⟨rfl, by simp, hr⟩
   | .text p t rest, hf, ctx, st, env, hr, hown, hok => by
@@ -2128,17 +2057,17 @@ theorem parts_agree : (ps : MsgParts) → partsFrag coll ps = true → ∀ (ctx 
     | unspec => simp [Spec.Eval.Out.bind, Agree]
     | error => simp [Spec.Eval.Out.bind, Agree, h2 hv]
     | val v =>
-      obtain ⟨mv, st1, he, habs, hsc, hheap, hout⟩ := h1 v hv
+      obtain ⟨mv, st1, he, habs, hheap, hout⟩ := h1 v hv
       subst habs
-      have hr1 : Rel coll g entry ctx st1 env := hr.of_heap hheap
+      have hr1 : Rel g entry ctx st1 env := hr.of_heap hheap
       have hok1 : ScopeOk ctx st1 := fun f hf' => by rw [hheap]; exact hok f hf'
       have hown1 : Own ctx st1 := hown.ext (evalIn_ext (fun _ => False) he)
       simp only [Spec.Eval.Out.bind, he]
       cases mv with
       | int i =>
         simp only [absV]
-        have hd : ∀ ctx' st' env', Rel coll g entry ctx' st' env' → Own ctx' st' → ScopeOk ctx' st' →
-            Agree coll g entry ctx' st' (walkMsgBody g esc call dflt ctx' st')
+        have hd : ∀ ctx' st' env', Rel g entry ctx' st' env' → Own ctx' st' → ScopeOk ctx' st' →
+            Agree g entry ctx' st' (walkMsgBody g esc call dflt ctx' st')
               (Spec.Eval.renderParts reg hasBundle esc entry scall dsem dflt env') :=
           fun ctx' st' env' hr' hown' hok' => parts_agree dflt hfd ctx' st' env' hr' hown' hok'
         have hp1 := plural_agree cases hfc (walkMsgBody g esc call dflt)
@@ -2170,12 +2099,12 @@ theorem parts_agree : (ps : MsgParts) → partsFrag coll ps = true → ∀ (ctx 
       | bool _ => simp [absV, Agree]
       | float _ => simp [absV, Agree]
       | str _ => simp [absV, Agree]
-      | list _ _ => simp [Scalar] at hsc
-      | map _ _ => simp [Scalar] at hsc
+      | list _ _ => simp [absV, Agree]
+      | map _ _ => simp [absV, Agree]
 /-- a placeholder: an HTML tag (its text) or a command -/
-theorem ph_agree : (b : MsgPhBody) → phFrag coll b = true → ∀ (ctx : Scope) (st : St) (env : Spec.Eval.Env),
-    Rel coll g entry ctx st env → Own ctx st → ScopeOk ctx st →
-    Agree coll g entry ctx st (execPh g esc call b ctx st) (Spec.Eval.renderPh reg hasBundle esc entry scall dsem b env)
+theorem ph_agree : (b : MsgPhBody) → phFrag b = true → ∀ (ctx : Scope) (st : St) (env : Spec.Eval.Env),
+    Rel g entry ctx st env → Own ctx st → ScopeOk ctx st →
+    Agree g entry ctx st (execPh g esc call b ctx st) (Spec.Eval.renderPh reg hasBundle esc entry scall dsem b env)
   | .htmlTag p text, _, ctx, st, env, hr, _, _ => by
     rw [execPh, Spec.Eval.renderPh]
     exact ⟨rfl, bufBytes_write _ text, hr.of_heap rfl⟩
@@ -2184,11 +2113,11 @@ theorem ph_agree : (b : MsgPhBody) → phFrag coll b = true → ∀ (ctx : Scope
     rw [execPh, Spec.Eval.renderPh]
     exact Agree.of_atNode (cmd_agree c hf ctx _ env (hr.of_heap rfl) (hown.atNode _) hok)
 /-- the cases of a {plural}: the first whose number equals the value, else the default -/
-theorem plural_agree : (cs : PluralCases) → plFrag coll cs = true → ∀ (dflt : Run) (sd : Spec.Eval.Env → Spec.Eval.ROut),
-    (∀ ctx st env, Rel coll g entry ctx st env → Own ctx st → ScopeOk ctx st → Agree coll g entry ctx st (dflt ctx st) (sd env)) →
+theorem plural_agree : (cs : PluralCases) → plFrag cs = true → ∀ (dflt : Run) (sd : Spec.Eval.Env → Spec.Eval.ROut),
+    (∀ ctx st env, Rel g entry ctx st env → Own ctx st → ScopeOk ctx st → Agree g entry ctx st (dflt ctx st) (sd env)) →
     ∀ (i : Int) (ctx : Scope) (st : St) (env : Spec.Eval.Env),
-    Rel coll g entry ctx st env → Own ctx st → ScopeOk ctx st →
-    Agree coll g entry ctx st (walkPluralCases g esc call cs dflt i ctx st) (Spec.Eval.renderPlural reg hasBundle esc entry scall dsem cs sd i env)
+    Rel g entry ctx st env → Own ctx st → ScopeOk ctx st →
+    Agree g entry ctx st (walkPluralCases g esc call cs dflt i ctx st) (Spec.Eval.renderPlural reg hasBundle esc entry scall dsem cs sd i env)
   | .nil, _, dflt, sd, hd, i, ctx, st, env, hr, hown, hok => by
     rw [walkPluralCases, Spec.Eval.renderPlural]; exact hd ctx st env hr hown hok
   | .cons _ v _ body rest, hf, dflt, sd, hd, i, ctx, st, env, hr, hown, hok => by
@@ -2198,8 +2127,8 @@ theorem plural_agree : (cs : PluralCases) → plFrag coll cs = true → ∀ (dfl
     · exact parts_agree body hf.1 ctx st env hr hown hok
     · exact plural_agree rest hf.2 dflt sd hd i ctx st env hr hown hok
 /-- the placeholders of a message: the interpreter's runs against the specification's renderings -/
-theorem phAll_rel : (ps : MsgParts) → partsFrag coll ps = true → ∀ (d : Nat),
-    PhRel coll g entry (phAll g esc call ps d) (Spec.Eval.sphAll reg hasBundle esc entry scall dsem ps d)
+theorem phAll_rel : (ps : MsgParts) → partsFrag ps = true → ∀ (d : Nat),
+    PhRel g entry (phAll g esc call ps d) (Spec.Eval.sphAll reg hasBundle esc entry scall dsem ps d)
   | .nil, _, d => by rw [phAll, Spec.Eval.sphAll]; exact .nil
   | .text _ _ rest, hf, d => by
     rw [phAll, Spec.Eval.sphAll]; simp only [partsFrag] at hf; exact phAll_rel rest hf d
@@ -2213,8 +2142,8 @@ theorem phAll_rel : (ps : MsgParts) → partsFrag coll ps = true → ∀ (d : Na
     simp only [partsFrag, Bool.and_eq_true] at hf
     exact ((phAllCases_rel cases hf.1.1.2 (d + 3)).append g entry (phAll_rel dflt hf.1.2 (d + 2))).append g entry
       (phAll_rel rest hf.2 d)
-theorem phAllCases_rel : (cs : PluralCases) → plFrag coll cs = true → ∀ (d : Nat),
-    PhRel coll g entry (phAllCases g esc call cs d) (Spec.Eval.sphAllCases reg hasBundle esc entry scall dsem cs d)
+theorem phAllCases_rel : (cs : PluralCases) → plFrag cs = true → ∀ (d : Nat),
+    PhRel g entry (phAllCases g esc call cs d) (Spec.Eval.sphAllCases reg hasBundle esc entry scall dsem cs d)
   | .nil, _, d => by rw [phAllCases, Spec.Eval.sphAllCases]; exact .nil
   | .cons _ _ _ body rest, hf, d => by
     rw [phAllCases, Spec.Eval.sphAllCases]
@@ -2227,8 +2156,8 @@ include hob hcall hreg hmsg hdir hcs in
 /-- The walk of a template body refines the lexical semantics: on the fragment, whenever `Spec.renderBlock`
     yields text the model ends ok and has written exactly that text after what was written before;
     whenever it yields an error the model yields an error. -/
-theorem exec_refines_lexical_partial (b : Block) (hf : bfrag coll b = true) (ctx : Scope) (st : St) (env : Spec.Eval.Env)
-    (hr : Rel coll g entry ctx st env) (hown : Own ctx st) (hok : ScopeOk ctx st) :
+theorem exec_refines_lexical_partial (b : Block) (hf : bfrag b = true) (ctx : Scope) (st : St) (env : Spec.Eval.Env)
+    (hr : Rel g entry ctx st env) (hown : Own ctx st) (hok : ScopeOk ctx st) :
     match Spec.Eval.renderBlock reg hasBundle esc entry scall dsem b env with
     | .val out => (execBody g esc call b ctx st).cls = .ok ∧
         bufBytes (execBody g esc call b ctx st).st.out = bufBytes st.out ++ out
@@ -2248,16 +2177,16 @@ include hob hcall hreg hmsg hdir hcs in
     specification's in the current state (`hE` — e.g. a variable bound to a list of scalars,
     `list_variable_agrees`), the loop refines the lexical semantics: the body runs once per element in a
     frame of its own, the loop variable is gone afterwards. -/
-theorem foreach_over_value_refines (p0 : Nat) (var : Bytes) (E : Expr) (bp : Nat) (cs : CmdList) (hfb : csFrag coll cs = true)
-    (ctx : Scope) (st : St) (env : Spec.Eval.Env) (hr : Rel coll g entry ctx st env) (hown : Own ctx st) (hok : ScopeOk ctx st)
+theorem foreach_over_value_refines (p0 : Nat) (var : Bytes) (E : Expr) (bp : Nat) (cs : CmdList) (hfb : csFrag cs = true)
+    (ctx : Scope) (st : St) (env : Spec.Eval.Env) (hr : Rel g entry ctx st env) (hown : Own ctx st) (hok : ScopeOk ctx st)
     (hE : (∀ v, Spec.Eval.eval env E = .val v → ∃ id mvs st1, evalIn g E ctx st = some (.list id mvs, st1) ∧
-          v = .list (absL mvs) ∧ (∀ x ∈ mvs, Scalar x = true) ∧ st1.heap = st.heap ∧ st1.out = st.out) ∧
+          v = .list (absL mvs) ∧ st1.heap = st.heap ∧ st1.out = st.out) ∧
         (Spec.Eval.eval env E = .error → evalIn g E ctx st = none)) :
-    Agree coll g entry ctx st (execCmd g esc call (.forc p0 var E (.mk bp cs) none) ctx st)
+    Agree g entry ctx st (execCmd g esc call (.forc p0 var E (.mk bp cs) none) ctx st)
       (Spec.Eval.renderCmd reg hasBundle esc entry scall dsem (.forc p0 var E (.mk bp cs) none) env) := by
     obtain ⟨h1, h2⟩ := hE
-    have hb : ∀ ctx' st' env', Rel coll g entry ctx' st' env' → Own ctx' st' → ScopeOk ctx' st' →
-        ∃ o : Spec.Eval.ROut, Agree coll g entry ctx' st' (execBody g esc call (.mk bp cs) ctx' st') o ∧
+    have hb : ∀ ctx' st' env', Rel g entry ctx' st' env' → Own ctx' st' → ScopeOk ctx' st' →
+        ∃ o : Spec.Eval.ROut, Agree g entry ctx' st' (execBody g esc call (.mk bp cs) ctx' st') o ∧
           Spec.Eval.renderBlock reg hasBundle esc entry scall dsem (.mk bp cs) env' = o.bind fun q => .val q.1 := by
       intro ctx' st' env' hr' hown' hok'
       refine ⟨cmdsE esc reg hasBundle entry scall dsem cs env', ?_, ?_⟩
@@ -2268,9 +2197,9 @@ theorem foreach_over_value_refines (p0 : Nat) (var : Bytes) (E : Expr) (bp : Nat
     | unspec => simp [Spec.Eval.Out.bind, Agree]
     | error => simp [Spec.Eval.Out.bind, Agree, h2 hv]
     | val v =>
-      obtain ⟨id, mvs, st1, he, hveq, hsc, hheap, hout⟩ := h1 v hv
+      obtain ⟨id, mvs, st1, he, hveq, hheap, hout⟩ := h1 v hv
       subst hveq
-      have hr1 : Rel coll g entry ctx st1 env := hr.of_heap hheap
+      have hr1 : Rel g entry ctx st1 env := hr.of_heap hheap
       have hok1 : ScopeOk ctx st1 := fun f hf' => by rw [hheap]; exact hok f hf'
       simp only [Spec.Eval.Out.bind, he]
       cases mvs with
@@ -2280,7 +2209,7 @@ theorem foreach_over_value_refines (p0 : Nat) (var : Bytes) (E : Expr) (bp : Nat
       | cons x rest =>
         simp only [List.isEmpty_cons, Bool.false_eq_true, if_false, absL]
         have hl := loop_agree g entry (execBody g esc call (.mk bp cs)) _ (execBody_good g esc call hcall _) hb var
-          (((x :: rest).length : Int) - 1) ((absV x :: absL rest).length - 1) (x :: rest) 0 ctx st1 env hr1 hok1 hsc
+          (((x :: rest).length : Int) - 1) ((absV x :: absL rest).length - 1) (x :: rest) 0 ctx st1 env hr1 hok1
         rw [absL] at hl
         cases hlv : Spec.Eval.loopSpec (Spec.Eval.renderBlock reg hasBundle esc entry scall dsem (.mk bp cs)) env var
             ((absV x :: absL rest).length - 1) (absV x :: absL rest) 0 with
@@ -2292,12 +2221,12 @@ theorem foreach_over_value_refines (p0 : Nat) (var : Bytes) (E : Expr) (bp : Nat
           exact ⟨hl.1, by rw [hl.2.1, hout], hl.2.2⟩
 
 omit hob hcall hreg hcs in
-/-- a variable bound to a list of scalars (in both environments) is such an `E` -/
+/-- a variable bound to a list (in both environments) is such an `E` -/
 theorem list_variable_agrees (p : Nat) (key : Bytes) (hk : (key == sIj) = false) (ctx : Scope) (st : St) (env : Spec.Eval.Env)
-    (id : Nat) (xs : List Value) (hxs : ∀ x ∈ xs, Scalar x = true)
+    (id : Nat) (xs : List Value)
     (hm : lookup st.heap ctx key = .list id xs) (hs : env.lookup key = .list (absL xs)) :
     (∀ v, Spec.Eval.eval env (.dataRef p key .nil) = .val v → ∃ id mvs st1, evalIn g (.dataRef p key .nil) ctx st = some (.list id mvs, st1) ∧
-        v = .list (absL mvs) ∧ (∀ x ∈ mvs, Scalar x = true) ∧ st1.heap = st.heap ∧ st1.out = st.out) ∧
+        v = .list (absL mvs) ∧ st1.heap = st.heap ∧ st1.out = st.out) ∧
     (Spec.Eval.eval env (.dataRef p key .nil) = .error → evalIn g (.dataRef p key .nil) ctx st = none) := by
   have hk2 : (key == Spec.Eval.sIj) = false := hk
   have hS : Spec.Eval.eval env (.dataRef p key .nil) = .val (.list (absL xs)) := by
@@ -2305,20 +2234,20 @@ theorem list_variable_agrees (p : Nat) (key : Bytes) (hk : (key == sIj) = false)
   have hM : evalIn g (.dataRef p key .nil) ctx st = some (.list id xs, st) := by
     simp [evalIn, evalE, hk, evalAccesses, eenv, hm]
   rw [hS]
-  exact ⟨fun v hv => by simp only [Out.val.injEq] at hv; exact ⟨id, xs, st, hM, hv.symm, hxs, rfl, rfl⟩, fun h => by simp at h⟩
+  exact ⟨fun v hv => by simp only [Out.val.injEq] at hv; exact ⟨id, xs, st, hM, hv.symm, rfl, rfl⟩, fun h => by simp at h⟩
 
 end
 
 /-! ### the closed statement: templates calling templates, `execute` against `Spec.render` -/
 
 /-- every template of the registry is in the fragment -/
-def regFrag (coll : Bytes → Bool) (reg : Registry.Reg) : Prop := ∀ t ∈ reg, bfrag coll t.body = true
+def regFrag (reg : Registry.Reg) : Prop := ∀ t ∈ reg, bfrag t.body = true
 
 /-- a template invocation refines the specification's, at every call depth -/
-theorem tmpl_refines (coll : Bytes → Bool) (g : GEnv) (hob : g.oblig = []) (hasBundle : Bool) (dsem : Option Spec.Eval.LibSem)
-    (hmsg : BundleOk g hasBundle dsem) (hdir : DirOk g (Spec.Eval.dirsOf dsem)) (hfr : regFrag coll g.reg) :
+theorem tmpl_refines (g : GEnv) (hob : g.oblig = []) (hasBundle : Bool) (dsem : Option Spec.Eval.LibSem)
+    (hmsg : BundleOk g hasBundle dsem) (hdir : DirOk g (Spec.Eval.dirsOf dsem)) (hfr : regFrag g.reg) :
     ∀ (fuel : Nat) (t : Registry.Tmpl), t ∈ g.reg → ∀ (cctx : Scope) (s2 : St) (ce : Spec.Eval.CallEnv),
-      Rel coll g ce.entry cctx s2 { vars := ce.entry, loops := [], ij := ce.ij, globals := ce.globals } → Own cctx s2 → ScopeOk cctx s2 →
+      Rel g ce.entry cctx s2 { vars := ce.entry, loops := [], ij := ce.ij, globals := ce.globals } → Own cctx s2 → ScopeOk cctx s2 →
       AgreeT s2 (runTmpl g fuel t cctx s2) (Spec.Eval.renderTmpl g.reg hasBundle dsem fuel t ce) := by
   intro fuel
   induction fuel with
@@ -2357,8 +2286,8 @@ theorem execute_some (g : GEnv) (name : Bytes) (data : Frame) (fuel : Nat) (t : 
     with data="$m" or a map literal, with value and content params, msg without a bundle), data of scalars and — under the names `coll` —
     lists / maps of scalars, scalar globals, no obligatory directive: whenever `Spec.render` yields text, `execute` ends ok having written
     exactly that text; whenever it yields an error, `execute` fails. -/
-theorem render_refines_lexical_partial (coll : Bytes → Bool) (g : GEnv) (hob : g.oblig = []) (hfr : regFrag coll g.reg)
-    (hgl : ∀ kv ∈ g.globals, Scalar kv.2 = true) (name : Bytes) (data : Frame) (hdata : ∀ kv ∈ data, OkAt coll kv.1 kv.2)
+theorem render_refines_lexical_partial (g : GEnv) (hob : g.oblig = []) (hfr : regFrag g.reg)
+    (name : Bytes) (data : Frame)
     (fuel : Nat) (ij : Option Spec.Eval.Binds) (hasBundle : Bool) (dsem : Option Spec.Eval.LibSem)
     (hmsg : BundleOk g hasBundle dsem) (hdir : DirOk g (Spec.Eval.dirsOf dsem)) :
     match Spec.Eval.render g.reg (absK g.globals) ij hasBundle name (absK data) fuel dsem with
@@ -2372,51 +2301,19 @@ theorem render_refines_lexical_partial (coll : Bytes → Bool) (g : GEnv) (hob :
     have ht : t ∈ g.reg := List.mem_of_find?_eq_some hl
     rw [execute_some g name data fuel t hl]
     simp only
-    have hfind : ∀ (kvs : Frame), (∀ kv ∈ kvs, Scalar kv.2 = true) → ∀ k v, Frame.find kvs k = some v → Scalar v = true := by
-      intro kvs
-      induction kvs with
-      | nil => intro _ k v h; simp [Frame.find] at h
-      | cons p r ih =>
-        intro hs k v h
-        obtain ⟨k', v'⟩ := p
-        simp only [Frame.find] at h
-        split at h
-        · simp only [Option.some.injEq] at h; subst h; exact hs (k', v') List.mem_cons_self
-        · exact ih (fun kv hkv => hs kv (List.mem_cons_of_mem _ hkv)) k v h
-    have hfindOk : ∀ (kvs : Frame), (∀ kv ∈ kvs, OkAt coll kv.1 kv.2) → ∀ k v, Frame.find kvs k = some v → OkAt coll k v := by
-      intro kvs
-      induction kvs with
-      | nil => intro _ k v h; simp [Frame.find] at h
-      | cons p r ih =>
-        intro hs k v h
-        obtain ⟨k', v'⟩ := p
-        simp only [Frame.find] at h
-        split at h
-        · rename_i hk
-          simp only [Option.some.injEq] at h; subst h
-          have := hs (k', v') List.mem_cons_self
-          rw [eq_of_beq hk] at this; exact this
-        · exact ih (fun kv hkv => hs kv (List.mem_cons_of_mem _ hkv)) k v h
-    have hfr0 : FrameRel coll [⟨data, true⟩, ⟨[], false⟩] [⟨1, false⟩, ⟨0, true⟩] (absK data) := by
+    have hfr0 : FrameRel [⟨data, true⟩, ⟨[], false⟩] [⟨1, false⟩, ⟨0, true⟩] (absK data) := by
       intro k
-      refine ⟨?_, ?_⟩
-      · simp only [lookup, heapGet, find_absK]
-        cases hf : Frame.find data k <;> simp [Frame.find, absV, hf]
-      · simp only [lookup, heapGet]
-        cases hf : Frame.find data k with
-        | none => simp [Frame.find, Scalar, Shallow, OkAt, hf]
-        | some v => simpa [Frame.find, hf] using hfindOk data hdata k v hf
-    have hrel : Rel coll g (absK data) [⟨1, false⟩, ⟨0, true⟩]
+      simp only [lookup, heapGet, find_absK]
+      cases hf : Frame.find data k <;> simp [Frame.find, absV, hf]
+    have hrel : Rel g (absK data) [⟨1, false⟩, ⟨0, true⟩]
         { heap := [⟨data, true⟩, ⟨[], false⟩], out := [], next := freshBase g data, foreign := 0 }
         { vars := absK data, loops := [], ij := ij, globals := absK g.globals } := by
-      refine ⟨⟨fun k _ => (hfr0 k).1, fun k hc => (hfr0 k).2.1 hc, fun k => ?_⟩, fun k => (hfr0 k).2.2, ?_⟩
+      refine ⟨⟨fun k _ => hfr0 k, fun k => ?_⟩, ?_⟩
       · show match Frame.find g.globals k with
-          | some v => Spec.Eval.find (absK g.globals) k = some (absV v) ∧ Scalar v = true
+          | some v => Spec.Eval.find (absK g.globals) k = some (absV v)
           | none => Spec.Eval.find (absK g.globals) k = none
         rw [find_absK]
-        cases hf : Frame.find g.globals k with
-        | none => simp
-        | some v => simp [hfind g.globals hgl k v hf]
+        cases hf : Frame.find g.globals k <;> simp
       · refine ⟨⟨1, false⟩, [⟨0, true⟩], [⟨0, true⟩], rfl, rfl, by simp [alldata], by simp, by simp, ?_⟩
         intro k
         have : lookup [⟨data, true⟩, ⟨[], false⟩] [⟨0, true⟩] k = lookup [⟨data, true⟩, ⟨[], false⟩] [⟨1, false⟩, ⟨0, true⟩] k := by
@@ -2428,7 +2325,7 @@ theorem render_refines_lexical_partial (coll : Bytes → Bool) (g : GEnv) (hob :
     have hok : ScopeOk [⟨1, false⟩, ⟨0, true⟩]
         { heap := [⟨data, true⟩, ⟨[], false⟩], out := [], next := freshBase g data, foreign := 0 } := by
       intro f hf; simp at hf; rcases hf with rfl | rfl <;> simp
-    have h := tmpl_refines coll g hob hasBundle dsem hmsg hdir hfr fuel t ht _ _ { entry := absK data, ij := ij, globals := absK g.globals } hrel hown hok
+    have h := tmpl_refines g hob hasBundle dsem hmsg hdir hfr fuel t ht _ _ { entry := absK data, ij := ij, globals := absK g.globals } hrel hown hok
     cases hv : Spec.Eval.renderTmpl g.reg hasBundle dsem fuel t { entry := absK data, ij := ij, globals := absK g.globals } with
     | unspec => trivial
     | error =>
@@ -2456,17 +2353,14 @@ def st0 : St := { heap := [⟨[([120], .str [111, 117, 116])], true⟩, ⟨[], f
 def ctx0 : Scope := [⟨1, false⟩, ⟨0, true⟩]
 def env0 : Spec.Eval.Env := { vars := [([120], .str [111, 117, 116])], loops := [], ij := none, globals := [] }
 
-/-- no name holds a collection -/
-def noColl : Bytes → Bool := fun _ => false
-
-theorem rel0 : Rel noColl g0 env0.vars ctx0 st0 env0 := by
-  have hfr : FrameRel noColl st0.heap ctx0 env0.vars := by
+theorem rel0 : Rel g0 env0.vars ctx0 st0 env0 := by
+  have hfr : FrameRel st0.heap ctx0 env0.vars := by
     intro k
     by_cases h : k = [120]
-    · subst h; exact ⟨rfl, fun _ => rfl, rfl⟩
+    · subst h; rfl
     · have h' : ([120] == k) = false := by simpa using fun e => h e.symm
-      simp [lookup, st0, ctx0, heapGet, Frame.find, h', env0, Spec.Eval.find, absV, Scalar, OkAt, Shallow]
-  refine ⟨⟨fun k _ => (hfr k).1, fun k hc => (hfr k).2.1 hc, fun k => by simp [eenv, g0, Frame.find, env0, Spec.Eval.find]⟩, fun k => (hfr k).2.2, ?_⟩
+      simp [lookup, st0, ctx0, heapGet, Frame.find, h', env0, Spec.Eval.find, absV]
+  refine ⟨⟨fun k _ => hfr k, fun k => by simp [eenv, g0, Frame.find, env0, Spec.Eval.find]⟩, ?_⟩
   refine ⟨⟨1, false⟩, [⟨0, true⟩], [⟨0, true⟩], rfl, rfl, by simp [alldata], by simp, by simp [st0], ?_⟩
   intro k
   have : lookup st0.heap [⟨0, true⟩] k = lookup st0.heap ctx0 k := by simp [lookup, heapGet, Frame.find, st0, ctx0]
@@ -2516,11 +2410,11 @@ def tCaller : Registry.Tmpl :=
 def gCall : GEnv := { reg := [tCaller, tCallee], globals := [], ij := none, msgs := none, tbl := [], oblig := [] }
 
 example : (execute gCall [116] [] 4).cls = .ok ∧ (execute gCall [116] [] 4).chunks.flatten = [91, 76, 93, 76] := by
-  have hfr : regFrag noColl gCall.reg := by
+  have hfr : regFrag gCall.reg := by
     intro t ht
     simp only [gCall, List.mem_cons, List.mem_nil_iff, or_false] at ht
     rcases ht with rfl | rfl <;> decide
-  have h := render_refines_lexical_partial noColl gCall rfl hfr (by simp [gCall]) [116] [] (by simp) 4 none false none ⟨fun _ => rfl, fun _ h => by cases h⟩ (fun _ h => by cases h)
+  have h := render_refines_lexical_partial gCall rfl hfr [116] [] 4 none false none ⟨fun _ => rfl, fun _ h => by cases h⟩ (fun _ h => by cases h)
   have hs : Spec.Eval.render gCall.reg (absK gCall.globals) none false [116] (absK []) 4 = .val [91, 76, 93, 76] := by rfl
   rw [hs] at h
   exact h
@@ -2543,11 +2437,11 @@ def gAll : GEnv := { reg := [tCallerAll, tCalleeAll], globals := [], ij := none,
 
 example : (execute gAll [116] [([120], .str [68])] 4).cls = .ok ∧
     (execute gAll [116] [([120], .str [68])] 4).chunks.flatten = [91, 76, 68, 93] := by
-  have hfr : regFrag noColl gAll.reg := by
+  have hfr : regFrag gAll.reg := by
     intro t ht
     simp only [gAll, List.mem_cons, List.mem_nil_iff, or_false] at ht
     rcases ht with rfl | rfl <;> decide
-  have h := render_refines_lexical_partial noColl gAll rfl hfr (by simp [gAll]) [116] [([120], .str [68])] (by simp [OkAt, Scalar, Shallow]) 4 none false none ⟨fun _ => rfl, fun _ h => by cases h⟩ (fun _ h => by cases h)
+  have h := render_refines_lexical_partial gAll rfl hfr [116] [([120], .str [68])] 4 none false none ⟨fun _ => rfl, fun _ h => by cases h⟩ (fun _ h => by cases h)
   have hs : Spec.Eval.render gAll.reg (absK gAll.globals) none false [116] (absK [([120], .str [68])]) 4 = .val [91, 76, 68, 93] := by rfl
   rw [hs] at h
   exact h
@@ -2557,8 +2451,6 @@ example : (execute gAll [116] [([120], .str [68])] 4).cls = .ok ∧
       {foreach $y in $l}{$y}{/foreach}{call .d data="$m"}{param p: 'P' /}{/call}{call .d data="['x': 'Q', 'p': 'R']" /}
 
     with .d = `[{$p}{$x}]`: "ab[PM][RQ]" -/
-
-def collLM : Bytes → Bool := fun k => k == [108] || k == [109]
 
 def tCallerData : Registry.Tmpl :=
   { name := [116], params := [],
@@ -2574,12 +2466,11 @@ def dataLM : Frame := [([108], .list 7 [.str [97], .str [98]]), ([109], .map 8 [
 set_option maxHeartbeats 2000000 in
 example : (execute gData [116] dataLM 4).cls = .ok ∧
     (execute gData [116] dataLM 4).chunks.flatten = [97, 98, 91, 80, 77, 93, 91, 82, 81, 93] := by
-  have hfr : regFrag collLM gData.reg := by
+  have hfr : regFrag gData.reg := by
     intro t ht
     simp only [gData, List.mem_cons, List.mem_nil_iff, or_false] at ht
     rcases ht with rfl | rfl <;> decide
-  have h := render_refines_lexical_partial collLM gData rfl hfr (by simp [gData]) [116] dataLM
-    (by simp [dataLM, OkAt, Scalar, Shallow, collLM]) 4 none false none ⟨fun _ => rfl, fun _ h => by cases h⟩ (fun _ h => by cases h)
+  have h := render_refines_lexical_partial gData rfl hfr [116] dataLM 4 none false none ⟨fun _ => rfl, fun _ h => by cases h⟩ (fun _ h => by cases h)
   have hs : Spec.Eval.render gData.reg (absK gData.globals) none false [116] (absK dataLM) 4 =
       .val [97, 98, 91, 80, 77, 93, 91, 82, 81, 93] := by rfl
   rw [hs] at h
@@ -2590,14 +2481,14 @@ example : (execute gData [116] dataLM 4).cls = .ok ∧
 def stL : St := { heap := [⟨[([108], .list 7 [.str [97], .str [98]])], true⟩, ⟨[], false⟩], out := [], next := 9, foreign := 0 }
 def envL : Spec.Eval.Env := { vars := [([108], .list [.str [97], .str [98]])], loops := [], ij := none, globals := [] }
 
-theorem relL : Rel collLM g0 envL.vars ctx0 stL envL := by
-  have hfr : FrameRel collLM stL.heap ctx0 envL.vars := by
+theorem relL : Rel g0 envL.vars ctx0 stL envL := by
+  have hfr : FrameRel stL.heap ctx0 envL.vars := by
     intro k
     by_cases h : k = [108]
-    · subst h; exact ⟨rfl, fun h => by simp [collLM] at h, rfl⟩
+    · subst h; rfl
     · have h' : ([108] == k) = false := by simpa using fun e => h e.symm
-      simp [lookup, stL, ctx0, heapGet, Frame.find, h', envL, Spec.Eval.find, absV, Scalar, OkAt, Shallow]
-  refine ⟨⟨fun k _ => (hfr k).1, fun k hc => (hfr k).2.1 hc, fun k => by simp [eenv, g0, Frame.find, envL, Spec.Eval.find]⟩, fun k => (hfr k).2.2, ?_⟩
+      simp [lookup, stL, ctx0, heapGet, Frame.find, h', envL, Spec.Eval.find, absV]
+  refine ⟨⟨fun k _ => hfr k, fun k => by simp [eenv, g0, Frame.find, envL, Spec.Eval.find]⟩, ?_⟩
   refine ⟨⟨1, false⟩, [⟨0, true⟩], [⟨0, true⟩], rfl, rfl, by simp [alldata], by simp, by simp [stL], ?_⟩
   intro k
   have : lookup stL.heap [⟨0, true⟩] k = lookup stL.heap ctx0 k := by simp [lookup, heapGet, Frame.find, stL, ctx0]
@@ -2610,7 +2501,7 @@ example : bufBytes (execCmd g0 true (fun _ ctx st => ⟨.fuelOut, ctx, st⟩)
   have h := foreach_over_value_refines g0 rfl true _ hcall [] false envL.vars (fun _ _ => .unspec) none rfl ⟨fun _ => rfl, fun _ h => by cases h⟩ (fun _ h => by cases h) (fun _ _ _ _ _ _ _ _ => trivial)
     1 [121] (.dataRef 1 [108] .nil) 2 (.cons (.print 2 (.dataRef 2 [121] .nil) []) .nil) (by decide) ctx0 stL envL relL
     ⟨⟨1, false⟩, [⟨0, true⟩], ⟨[], false⟩, rfl, rfl, rfl⟩ (by intro f hf; simp [ctx0] at hf; rcases hf with rfl | rfl <;> simp [stL])
-    (list_variable_agrees g0 1 [108] rfl ctx0 stL envL 7 [.str [97], .str [98]] (by simp [Scalar]) rfl rfl)
+    (list_variable_agrees g0 1 [108] rfl ctx0 stL envL 7 [.str [97], .str [98]] rfl rfl)
   have hs : Spec.Eval.renderCmd [] false true envL.vars (fun _ _ => .unspec) none
       (.forc 1 [121] (.dataRef 1 [108] .nil) (.mk 2 (.cons (.print 2 (.dataRef 2 [121] .nil) []) .nil)) none) envL = .val ([97, 98], envL) := by rfl
   rw [hs] at h
@@ -2628,11 +2519,11 @@ def tCallerContent : Registry.Tmpl :=
 def gContent : GEnv := { reg := [tCallerContent, tCallee], globals := [], ij := none, msgs := none, tbl := [], oblig := [] }
 
 example : (execute gContent [116] [] 4).cls = .ok ∧ (execute gContent [116] [] 4).chunks.flatten = [91, 40, 76, 41, 93] := by
-  have hfr : regFrag noColl gContent.reg := by
+  have hfr : regFrag gContent.reg := by
     intro t ht
     simp only [gContent, List.mem_cons, List.mem_nil_iff, or_false] at ht
     rcases ht with rfl | rfl <;> decide
-  have h := render_refines_lexical_partial noColl gContent rfl hfr (by simp [gContent]) [116] [] (by simp) 4 none false none ⟨fun _ => rfl, fun _ h => by cases h⟩ (fun _ h => by cases h)
+  have h := render_refines_lexical_partial gContent rfl hfr [116] [] 4 none false none ⟨fun _ => rfl, fun _ h => by cases h⟩ (fun _ h => by cases h)
   have hs : Spec.Eval.render gContent.reg (absK gContent.globals) none false [116] (absK []) 4 = .val [91, 40, 76, 41, 93] := by rfl
   rw [hs] at h
   exact h
@@ -2654,12 +2545,11 @@ def gMsg : GEnv := { reg := [tMsg], globals := [], ij := none, msgs := none, tbl
 def dataMsg : Frame := [([120], .str [111, 117, 116]), ([110], .int 3)]
 
 example : (execute gMsg [116] dataMsg 4).cls = .ok ∧ (execute gMsg [116] dataMsg 4).chunks.flatten = [72, 111, 117, 116, 51, 115] := by
-  have hfr : regFrag noColl gMsg.reg := by
+  have hfr : regFrag gMsg.reg := by
     intro t ht
     simp only [gMsg, List.mem_cons, List.mem_nil_iff, or_false] at ht
     subst ht; decide
-  have h := render_refines_lexical_partial noColl gMsg rfl hfr (by simp [gMsg]) [116] dataMsg
-    (by simp [dataMsg, OkAt, Scalar, Shallow]) 4 none false none ⟨fun _ => rfl, fun _ h => by cases h⟩ (fun _ h => by cases h)
+  have h := render_refines_lexical_partial gMsg rfl hfr [116] dataMsg 4 none false none ⟨fun _ => rfl, fun _ h => by cases h⟩ (fun _ h => by cases h)
   have hs : Spec.Eval.render gMsg.reg (absK gMsg.globals) none false [116] (absK dataMsg) 4 = .val [72, 111, 117, 116, 51, 115] := by rfl
   rw [hs] at h
   exact h
@@ -2703,27 +2593,54 @@ theorem applyDirective_scalar (impl : Bytes) (mv : Value) (args : List Value) (r
   · exact h
   · rfl
 
-/-- the directive semantics of the interpreter's library: its table, its implementations (on scalars) -/
+def scalarV : Val → Bool
+  | .list _ => false
+  | .map _ => false
+  | _ => true
+
+theorem scalarV_abs (mv : Value) : scalarV (absV mv) = Scalar mv := by cases mv <;> rfl
+
+theorem scalarV_absL : ∀ (l : List Value), (absL l).all scalarV = true → ∀ x ∈ l, Scalar x = true
+  | [], _ => by simp
+  | x :: r, h => by
+    simp only [absL, List.all_cons, Bool.and_eq_true] at h
+    intro y hy
+    rcases List.mem_cons.mp hy with rfl | hy
+    · rw [← scalarV_abs]; exact h.1
+    · exact scalarV_absL r h.2 y hy
+
+/-- the directive semantics of the interpreter's library: its table, its implementations — on scalar values
+    and arguments; on collections this instance leaves the result open -/
 def modelDirSem (tbl : Directives.Table) : Spec.Eval.DirSem :=
   { lookup := fun name => (Directives.lookup tbl name).map fun e => (e.arities, e.impl, e.cancel)
     apply := fun impl v args =>
-      match applyDirective impl (concV v) (args.map concV) with
-      | some r => .val (absV r)
-      | none => .error }
+      if scalarV v && args.all scalarV then
+        match applyDirective impl (concV v) (args.map concV) with
+        | some r => .val (absV r)
+        | none => .error
+      else .unspec }
 
 theorem modelDirSem_ok (g : GEnv) : DirOk g (some (modelDirSem g.tbl)) := by
   intro D hD
   simp only [Option.some.injEq] at hD
   subst hD
   refine ⟨fun _ => rfl, ?_⟩
-  intro impl mv margs hsc hscs
-  simp only [modelDirSem, concV_absV mv hsc, concL_absL margs hscs]
-  cases ha : applyDirective impl mv margs with
-  | none => exact ⟨fun v' h => by simp at h, fun _ => rfl⟩
-  | some r =>
-    refine ⟨fun v' h => ?_, fun h => by simp at h⟩
-    simp only [Out.val.injEq] at h
-    exact ⟨r, rfl, h, applyDirective_scalar impl mv margs r hsc ha⟩
+  intro impl mv margs
+  simp only [modelDirSem]
+  by_cases hs : (scalarV (absV mv) && (absL margs).all scalarV) = true
+  · simp only [hs, if_true]
+    simp only [Bool.and_eq_true] at hs
+    have hsc : Scalar mv = true := by rw [← scalarV_abs]; exact hs.1
+    have hscs := scalarV_absL margs hs.2
+    simp only [concV_absV mv hsc, concL_absL margs hscs]
+    cases ha : applyDirective impl mv margs with
+    | none => exact ⟨fun v' h => by simp at h, fun _ => rfl⟩
+    | some r =>
+      refine ⟨fun v' h => ?_, fun h => by simp at h⟩
+      simp only [Out.val.injEq] at h
+      exact ⟨r, rfl, h⟩
+  · simp only [hs, Bool.false_eq_true, if_false]
+    exact ⟨fun v' h => by simp at h, fun h => by simp at h⟩
 
 /-! `{$x}{$x|noAutoescape}{$x|truncate:2|noAutoescape}` on x = '<b>c': "&lt;b&gt;c" "<b>c" "<b" -/
 
@@ -2742,12 +2659,11 @@ def gDir : GEnv := { reg := [tDir], globals := [], ij := none, msgs := none, tbl
 example : (execute gDir [116] [([120], .str [60, 98, 62, 99])] 4).cls = .ok ∧
     (execute gDir [116] [([120], .str [60, 98, 62, 99])] 4).chunks.flatten =
       [38, 108, 116, 59, 98, 38, 103, 116, 59, 99, 60, 98, 62, 99, 60, 98] := by
-  have hfr : regFrag noColl gDir.reg := by
+  have hfr : regFrag gDir.reg := by
     intro t ht
     simp only [gDir, List.mem_cons, List.mem_nil_iff, or_false] at ht
     subst ht; decide
-  have h := render_refines_lexical_partial noColl gDir rfl hfr (by simp [gDir]) [116] [([120], .str [60, 98, 62, 99])]
-    (by simp [OkAt, Scalar, Shallow]) 4 none false (some { dirs := some (modelDirSem gDir.tbl) }) ⟨fun _ => rfl, fun _ h => by cases h⟩ (modelDirSem_ok gDir)
+  have h := render_refines_lexical_partial gDir rfl hfr [116] [([120], .str [60, 98, 62, 99])] 4 none false (some { dirs := some (modelDirSem gDir.tbl) }) ⟨fun _ => rfl, fun _ h => by cases h⟩ (modelDirSem_ok gDir)
   have hs : Spec.Eval.render gDir.reg (absK gDir.globals) none false [116] (absK [([120], .str [60, 98, 62, 99])]) 4
       (some { dirs := some (modelDirSem gDir.tbl) }) = .val [38, 108, 116, 59, 98, 38, 103, 116, 59, 99, 60, 98, 62, 99, 60, 98] := by rfl
   rw [hs] at h
@@ -2818,18 +2734,69 @@ def gMsgB : GEnv := { reg := [tMsgB], globals := [], ij := none, msgs := some bu
 set_option maxHeartbeats 2000000 in
 example : (execute gMsgB [116] dataMsg 4).cls = .ok ∧
     (execute gMsgB [116] dataMsg 4).chunks.flatten = [91, 51, 124, 111, 117, 116, 93, 51, 32, 118, 105, 101, 108, 101] := by
-  have hfr : regFrag noColl gMsgB.reg := by
+  have hfr : regFrag gMsgB.reg := by
     intro t ht
     simp only [gMsgB, List.mem_cons, List.mem_nil_iff, or_false] at ht
     subst ht; decide
-  have h := render_refines_lexical_partial noColl gMsgB rfl hfr (by simp [gMsgB]) [116] dataMsg
-    (by simp [dataMsg, OkAt, Scalar, Shallow]) 4 none true (some { dirs := none, msgs := some (modelMsgSem bundleB) })
+  have h := render_refines_lexical_partial gMsgB rfl hfr [116] dataMsg 4 none true (some { dirs := none, msgs := some (modelMsgSem bundleB) })
     (modelMsgSem_ok gMsgB bundleB rfl none) (fun _ h => by cases h)
   have hs : Spec.Eval.render gMsgB.reg (absK gMsgB.globals) none true [116] (absK dataMsg) 4
       (some { dirs := none, msgs := some (modelMsgSem bundleB) }) =
       .val [91, 51, 124, 111, 117, 116, 93, 51, 32, 118, 105, 101, 108, 101] := by rfl
   rw [hs] at h
   exact h
+
+/-! ### accesses, collection literals and builtins in a program: on x = {items: [{name: 'a', tag: null}, {name: 'b', tag: 'T'}]}
+
+      {foreach $it in $x.items}{$it.name}{if isNonnull($it.tag)}:{$it.tag}{/if}{/foreach}{length($x.items)}
+      {call .d data="['x': $x.items[0].name, 'p': min(1, 2)]" /}
+
+    with .d = `[{$p}{$x}]`: "ab:T2[1a]" -/
+
+def kItems : Bytes := [105, 116, 101, 109, 115]
+def kName : Bytes := [110, 97, 109, 101]
+def kTag : Bytes := [116, 97, 103]
+def kIt : Bytes := [105, 116]
+
+def tAcc : Registry.Tmpl :=
+  { name := [116], params := [],
+    body := .mk 1 (.cons (.forc 1 kIt (.dataRef 1 [120] (.cons (.key 1 false kItems) .nil))
+        (.mk 2 (.cons (.print 2 (.dataRef 2 kIt (.cons (.key 2 false kName) .nil)) [])
+          (.cons (.ifc 3 (.cons 3 (some (.func 3 fIsNonnull (.cons (.dataRef 3 kIt (.cons (.key 3 false kTag) .nil)) .nil)))
+            (.mk 4 (.cons (.rawText 4 [58]) (.cons (.print 4 (.dataRef 4 kIt (.cons (.key 4 false kTag) .nil)) []) .nil))) .nil)) .nil))) none)
+      (.cons (.print 5 (.func 5 fLength (.cons (.dataRef 5 [120] (.cons (.key 5 false kItems) .nil)) .nil)) [])
+      (.cons (.call 6 [100] false (some (.map 6 (.cons [120]
+          (.dataRef 6 [120] (.cons (.key 6 false kItems) (.cons (.index 6 false 0) (.cons (.key 6 false kName) .nil))))
+          (.cons [112] (.func 6 fMin (.cons (.int 6 1) (.cons (.int 6 2) .nil))) .nil)))) .nil) .nil))),
+    autoescape := .unspecified, nsName := [110], nsAutoescape := .unspecified, pos := 0, file := [102], text := [] }
+
+def gAcc : GEnv := { reg := [tAcc, tCalleeAll], globals := [], ij := none, msgs := none, tbl := [], oblig := [] }
+
+def dataAcc : Frame := [([120], .map 3 [(kItems, .list 4
+  [.map 5 [(kName, .str [97]), (kTag, .null)], .map 6 [(kName, .str [98]), (kTag, .str [84])]])])]
+
+set_option maxHeartbeats 4000000 in
+example : (execute gAcc [116] dataAcc 4).cls = .ok ∧
+    (execute gAcc [116] dataAcc 4).chunks.flatten = [97, 98, 58, 84, 50, 91, 49, 97, 93] := by
+  have hfr : regFrag gAcc.reg := by
+    intro t ht
+    simp only [gAcc, List.mem_cons, List.mem_nil_iff, or_false] at ht
+    rcases ht with rfl | rfl <;> decide
+  have h := render_refines_lexical_partial gAcc rfl hfr [116] dataAcc 4 none false none ⟨fun _ => rfl, fun _ h => by cases h⟩ (fun _ h => by cases h)
+  have hs : Spec.Eval.render gAcc.reg (absK gAcc.globals) none false [116] (absK dataAcc) 4 =
+      .val [97, 98, 58, 84, 50, 91, 49, 97, 93] := by rfl
+  rw [hs] at h
+  exact h
+
+/-- a loop over `$y` leaves `$x` (and every other name) as it was: the frame of an iteration of
+    `{foreach $y in …}` over the example scope -/
+example : ∃ st2 st3 st4,
+    Eval.set (push ctx0 st0).1 (push ctx0 st0).2 ([121] ++ sLastIndexSuffix) (.int 1) = some st2 ∧
+    Eval.set (push ctx0 st0).1 st2 [121] (.str [97]) = some st3 ∧
+    Eval.set (push ctx0 st0).1 st3 ([121] ++ sIndexSuffix) (.int 0) = some st4 ∧
+    lookup st4.heap (push ctx0 st0).1 [120] = lookup st0.heap ctx0 [120] :=
+  ⟨_, _, _, rfl, rfl, rfl, loop_hides_only_its_variable [121] (.str [97]) 1 0 ctx0 st0 _ _ _
+    (by intro f hf; simp [ctx0] at hf; rcases hf with rfl | rfl <;> simp [st0]) rfl rfl rfl [120] (by decide) (by decide)⟩
 
 /-- `{for $i in range(1, 4)}{$i}{/for}{$x}`: "123out" -/
 def body2 : Block :=
